@@ -10,7 +10,7 @@
     [random.randint] in the same way.  Built-ins [pow(x, y, m)], [math.isqrt], [math.gcd],
     [int.bit_length], [&], [|], [>>] are modelled by [pow3], [Z.sqrt], [Z.gcd], [bit_length],
     [Z.land], [Z.lor], [Z.shiftr]. *)
-From Coq Require Import ZArith Znumtheory Lia List Bool Permutation.
+From Coq Require Import ZArith Znumtheory Lia List Bool Permutation Zpow_facts.
 Import ListNotations.
 Local Open Scope Z_scope.
 
@@ -346,6 +346,41 @@ Definition ratrec (x y : Z) (N D : option Z) : res (Z * Z) :=
   | Some N, Some D => ratrec_core x y N D
   end.
 
+(** boolean primality by trial division (same definitions as in Zp.v, repeated here so that this
+    file does not depend on the field library), used to discharge [prime p] for small concrete p *)
+Fixpoint no_divisor (fuel : nat) (d p : Z) : bool :=
+  match fuel with
+  | O => true
+  | S f => if p mod d =? 0 then false else no_divisor f (d + 1) p
+  end.
+Definition is_prime_small (p : Z) : bool := (2 <=? p) && no_divisor (Z.to_nat (p - 2)) 2 p.
+
+Lemma no_divisor_spec fuel : forall d p, 0 < d -> no_divisor fuel d p = true ->
+  forall x, d <= x < d + Z.of_nat fuel -> p mod x <> 0.
+Proof.
+  induction fuel as [|f IH]; intros d p Hd H x Hx; [lia|].
+  simpl in H. destruct (p mod d =? 0) eqn:E; [discriminate|]. apply Z.eqb_neq in E.
+  destruct (Z.eq_dec x d); [subst; exact E|].
+  apply (IH (d + 1) p); auto; lia.
+Qed.
+
+Lemma is_prime_small_correct p : is_prime_small p = true -> prime p.
+Proof.
+  unfold is_prime_small. intros H. apply andb_true_iff in H. destruct H as [H2 Hn].
+  apply Z.leb_le in H2.
+  apply prime_intro; [lia|]. intros n Hn1.
+  apply Zgcd_1_rel_prime.
+  pose proof (Z.gcd_divide_l n p) as Hdn. pose proof (Z.gcd_divide_r n p) as Hdp.
+  pose proof (Z.gcd_nonneg n p) as Hnn.
+  remember (Z.gcd n p) as g eqn:Eg.
+  assert (Hg0 : g <> 0).
+  { intros E. subst g. apply Z.gcd_eq_0_r in E. lia. }
+  assert (Hgn : g <= n) by (apply Z.divide_pos_le; [lia|exact Hdn]).
+  destruct (Z.eq_dec g 1) as [E1|E1]; [exact E1|].
+  exfalso. apply (no_divisor_spec _ 2 p ltac:(lia) Hn g); [lia|].
+  apply Zdivide_mod. exact Hdp.
+Qed.
+
 (** ---- helpers for the correspondence runs ---- *)
 Definition zrange (lo : Z) (n : nat) : list Z := map (fun i => lo + Z.of_nat i) (seq 0 n).
 Definition grid {A} (f : Z -> Z -> A) (lo : Z) (n : nat) (lo2 : Z) (n2 : nat) : list (list A) :=
@@ -361,3 +396,1771 @@ Definition run_is_prime (M seed x : Z) := used (is_prime (gen_tape M seed x) x).
 Definition run_next_prime (fuel : nat) (M seed x : Z) := used (next_prime fuel (gen_tape M seed x) x).
 Definition run_prev_prime (fuel : nat) (M seed x : Z) := used (prev_prime fuel (gen_tape M seed x) x).
 Definition run_fpp (npf : nat) (M seed x : Z) := used (factor_prime_power npf (gen_tape M seed x) x).
+
+
+(** ======================= specifications and proofs ======================= *)
+
+Module PA.
+Local Open Scope Z_scope.
+
+(** ---- termination of the Euclid loops ---- *)
+
+Lemma mod_half_pos : forall f r, 0 < r < f -> 0 <= f mod r /\ 2 * (f mod r) < f.
+Proof.
+  intros f r H.
+  pose proof (Z.mod_pos_bound f r ltac:(lia)) as Hb.
+  pose proof (Z.div_mod f r ltac:(lia)) as Hd.
+  assert (1 <= f / r) as Hq by (apply Z.div_le_lower_bound; lia).
+  split; [lia | nia].
+Qed.
+
+Lemma mod_half : forall g f, f <> 0 -> g mod f <> 0 ->
+  2 * Z.abs (f mod (g mod f)) < Z.abs f.
+Proof.
+  intros g f Hf Hr.
+  destruct (Z.lt_trichotomy f 0) as [Hneg | [Hz | Hpos]]; [ | lia | ].
+  - pose proof (Z.mod_neg_bound g f Hneg) as Hb.
+    set (r := g mod f) in *.
+    assert (f mod r = - ((- f) mod (- r))) as E.
+    { rewrite <- Z.mod_opp_opp by lia. rewrite !Z.opp_involutive. reflexivity. }
+    pose proof (mod_half_pos (- f) (- r) ltac:(lia)) as H.
+    rewrite E. lia.
+  - pose proof (Z.mod_pos_bound g f Hpos) as Hb.
+    set (r := g mod f) in *.
+    pose proof (mod_half_pos f r ltac:(lia)) as H.
+    lia.
+Qed.
+
+Lemma gcdext_loop_term : forall k fuel g f s s1 t t1,
+  Z.abs f < 2 ^ Z.of_nat k -> (2 * k + 1 <= fuel)%nat ->
+  gcdext_loop fuel g f s s1 t t1 <> None.
+Proof.
+  induction k as [|k IH]; intros fuel g f s s1 t t1 Hf Hfuel.
+  - assert (f = 0) as -> by (simpl in Hf; lia).
+    destruct fuel; cbn [gcdext_loop]; rewrite Z.eqb_refl; discriminate.
+  - destruct fuel as [|fuel]; [lia|].
+    cbn [gcdext_loop]. destruct (Z.eqb_spec f 0) as [->|Hf0]; [discriminate|].
+    destruct fuel as [|fuel]; [lia|].
+    cbn [gcdext_loop]. destruct (Z.eqb_spec (g mod f) 0) as [|Hr0]; [discriminate|].
+    apply IH; [|lia].
+    pose proof (mod_half g f Hf0 Hr0) as Hh.
+    rewrite Nat2Z.inj_succ, Z.pow_succ_r in Hf by lia. lia.
+Qed.
+
+Lemma euclid_fuel_ok : forall f,
+  exists k, Z.abs f < 2 ^ Z.of_nat k /\ (2 * k + 1 <= euclid_fuel f)%nat.
+Proof.
+  intros f. exists (S (Z.to_nat (Z.log2_up (Z.abs f)))). split.
+  - pose proof (Z.log2_up_nonneg (Z.abs f)) as Hn.
+    rewrite Nat2Z.inj_succ, Z2Nat.id by assumption.
+    rewrite Z.pow_succ_r by assumption.
+    destruct (Z.eq_dec (Z.abs f) 0) as [E | NE].
+    + rewrite E. cbn. lia.
+    + pose proof (Z.log2_up_spec (Z.abs f)) as Hs.
+      destruct (Z.eq_dec (Z.abs f) 1) as [E1 | NE1].
+      * rewrite E1. cbn. lia.
+      * specialize (Hs ltac:(lia)). lia.
+  - unfold euclid_fuel. lia.
+Qed.
+
+Lemma gcdext_loop_total : forall g f s s1 t t1,
+  gcdext_loop (euclid_fuel f) g f s s1 t t1 <> None.
+Proof.
+  intros. destruct (euclid_fuel_ok f) as (k & H1 & H2).
+  eapply gcdext_loop_term; eauto.
+Qed.
+
+(** invert_loop is the projection of gcdext_loop *)
+Lemma invert_loop_proj : forall fuel a b s s1 t t1,
+  invert_loop fuel a b s s1 =
+  match gcdext_loop fuel a b s s1 t t1 with
+  | Some (g, s', _) => Some (g, s')
+  | None => None
+  end.
+Proof.
+  induction fuel as [|fuel IH]; intros a b s s1 t t1; cbn [invert_loop gcdext_loop];
+    destruct (b =? 0); try reflexivity.
+  apply IH.
+Qed.
+
+(** ---- gcd and Bezout invariants ---- *)
+Lemma gcdext_loop_inv : forall a b fuel g f s s1 t t1 g' s' t',
+  g = a * s + b * t -> f = a * s1 + b * t1 ->
+  gcdext_loop fuel g f s s1 t t1 = Some (g', s', t') ->
+  g' = a * s' + b * t' /\ Z.abs g' = Z.gcd g f.
+Proof.
+  intros a b. induction fuel as [|fuel IH]; intros g f s s1 t t1 g' s' t' Hg Hf;
+    cbn [gcdext_loop]; destruct (Z.eqb_spec f 0) as [Hf0|Hf0]; intros H; try discriminate.
+  - injection H as <- <- <-. split; [assumption|]. rewrite Hf0, Z.gcd_0_r. reflexivity.
+  - injection H as <- <- <-. split; [assumption|]. rewrite Hf0, Z.gcd_0_r. reflexivity.
+  - apply IH in H; [ | assumption | ].
+    + destruct H as [H1 H2]. split; [assumption|].
+      rewrite H2. rewrite Z.gcd_comm. rewrite Z.gcd_mod by assumption. apply Z.gcd_comm.
+    + rewrite Z.mod_eq by assumption.
+      remember (g / f) as q eqn:Eq. clear Eq. subst g f. ring.
+Qed.
+
+(** ---- gcdext ---- *)
+Theorem gcdext_total : forall a b, exists g s t, gcdext a b = Ok (g, s, t).
+Proof.
+  intros a b. unfold gcdext.
+  destruct (gcdext_loop (euclid_fuel b) a b 1 0 0 1) as [gst|] eqn:E.
+  - destruct (gcdext_fix a b gst) as [[g s] t]. eauto.
+  - exfalso. eapply gcdext_loop_total; eauto.
+Qed.
+
+Lemma fix_adjust : forall a b g s t,
+  0 < g -> (g | a) -> Z.abs b = 2 * g ->
+  (a < 0 /\ 0 < b \/ b < 0 /\ 0 < a) ->
+  a * s + b * t = g ->
+  a * (- s) + b * (t - s * (Z.abs a / g)) = g.
+Proof.
+  intros a b g s t Hg [k Hk] Hb Hsgn HB.
+  assert (Z.abs a / g = Z.abs k) as E.
+  { rewrite Hk, Z.abs_mul, (Z.abs_eq g) by lia. apply Z.div_mul. lia. }
+  rewrite E. clear E.
+  destruct Hsgn as [[Ha Hb'] | [Hb' Ha]].
+  - assert (k < 0) by nia. assert (b = 2 * g) as Eb by lia.
+    replace (Z.abs k) with (- k) by lia.
+    subst a. rewrite Eb in *. ring_simplify. ring_simplify in HB. lia.
+  - assert (0 < k) by nia. assert (b = - (2 * g)) as Eb by lia.
+    replace (Z.abs k) with k by lia.
+    subst a. rewrite Eb in *. ring_simplify. ring_simplify in HB. lia.
+Qed.
+
+Theorem gcdext_spec : forall a b g s t,
+  gcdext a b = Ok (g, s, t) -> g = Z.gcd a b /\ a * s + b * t = g.
+Proof.
+  intros a b g s t. unfold gcdext.
+  destruct (gcdext_loop (euclid_fuel b) a b 1 0 0 1) as [[[g0 s0] t0]|] eqn:E; [|discriminate].
+  apply (gcdext_loop_inv a b) in E; [ | ring | ring ].
+  destruct E as [HB HG].
+  pose proof (Z.gcd_nonneg a b) as Hnn.
+  pose proof (Z.gcd_divide_l a b) as Hdiv.
+  set (G := Z.gcd a b) in *.
+  intros H. injection H as H. unfold gcdext_fix in H.
+  assert (forall g1 s1 t1, g1 = G -> a * s1 + b * t1 = g1 ->
+    (if ((a <? 0) && (0 <? b) || (b <? 0) && (0 <? a)) && (Z.abs b =? 2 * g1)
+     then (g1, - s1, t1 - s1 * (Z.abs a / g1)) else (g1, s1, t1)) = (g, s, t) ->
+    g = G /\ a * s + b * t = g) as K.
+  { intros g1 s1 t1 Hg1 HB1.
+    destruct (((a <? 0) && (0 <? b) || (b <? 0) && (0 <? a)) && (Z.abs b =? 2 * g1)) eqn:C;
+      intros H1; injection H1 as <- <- <-.
+    - split; [assumption|].
+      apply andb_true_iff in C. destruct C as [C1 C2].
+      apply Z.eqb_eq in C2.
+      assert (a < 0 /\ 0 < b \/ b < 0 /\ 0 < a) as Hs.
+      { apply orb_true_iff in C1. destruct C1 as [C1|C1]; apply andb_true_iff in C1;
+          destruct C1 as [C3 C4]; apply Z.ltb_lt in C3; apply Z.ltb_lt in C4; lia. }
+      apply fix_adjust; try assumption; try lia.
+      rewrite Hg1. assumption.
+    - split; assumption. }
+  destruct (Z.ltb_spec g0 0) as [Hlt|Hge].
+  - apply K in H; [assumption | lia | ]. rewrite HB. ring.
+  - destruct (Z.eqb_spec g0 0) as [Hz|Hnz].
+    + apply K in H; [assumption | lia | ].
+      assert (G = 0) as HG0 by lia.
+      apply Z.gcd_eq_0 in HG0. destruct HG0 as [-> ->]. lia.
+    + apply K in H; [assumption | lia | lia ].
+Qed.
+
+(** ---- invert ---- *)
+Lemma invert_loop_bound : forall M fuel a b s s1 a' s',
+  0 <= b < a -> s * s1 <= 0 -> s1 <> 0 ->
+  a * Z.abs s1 + b * Z.abs s = M -> Z.abs s < M ->
+  invert_loop fuel a b s s1 = Some (a', s') -> 0 < a' /\ Z.abs s' < M.
+Proof.
+  intros M. induction fuel as [|fuel IH]; intros a b s s1 a' s' Hab Hss Hs1 HM Hs;
+    cbn [invert_loop]; destruct (Z.eqb_spec b 0) as [Hb0|Hb0]; intros H; try discriminate.
+  - injection H as <- <-. split; lia.
+  - injection H as <- <-. split; lia.
+  - assert (0 < b) as Hbpos by lia.
+    pose proof (Z.mod_pos_bound a b Hbpos) as Hmb.
+    pose proof (Z.mod_eq a b Hb0) as Hme.
+    assert (1 <= a / b) as Hq by (apply Z.div_le_lower_bound; lia).
+    remember (a / b) as q eqn:Eq. clear Eq.
+    remember (a mod b) as r eqn:Er. clear Er.
+    apply IH in H; try assumption.
+    + nia.
+    + nia.
+    + destruct (Z.lt_trichotomy s1 0) as [Hn | [Hz | Hp]]; [ | contradiction | ].
+      * assert (0 <= s) as Hs0 by nia.
+        assert (0 <= s - q * s1) by nia.
+        rewrite (Z.abs_eq (s - q * s1)) by assumption.
+        rewrite (Z.abs_neq s1) in * by lia.
+        rewrite (Z.abs_eq s) in * by lia.
+        subst r. rewrite <- HM. ring.
+      * assert (s <= 0) as Hs0 by nia.
+        assert (s - q * s1 <= 0) by nia.
+        rewrite (Z.abs_neq (s - q * s1)) by assumption.
+        rewrite (Z.abs_eq s1) in * by lia.
+        rewrite (Z.abs_neq s) in * by lia.
+        subst r. rewrite <- HM. ring.
+    + assert (0 <= b * Z.abs s) by (apply Z.mul_nonneg_nonneg; lia).
+      assert (1 <= Z.abs s1) by lia.
+      nia.
+Qed.
+
+Theorem invert_spec : forall x m,
+  (m = 0 \/ Z.gcd x m <> 1) /\ invert x m = EZeroDiv
+  \/ m <> 0 /\ Z.gcd x m = 1 /\ exists y, invert x m = Ok y /\ 0 <= y < Z.abs m
+       /\ (x * y) mod (Z.abs m) = 1 mod (Z.abs m) /\ (1 < Z.abs m -> 0 < y).
+Proof.
+  intros x m. unfold invert.
+  destruct (Z.eqb_spec m 0) as [Hm0|Hm0]; [left; split; [left; assumption | reflexivity]|].
+  rewrite <- (Z.gcd_abs_r x m).
+  assert (0 < Z.abs m) as HMpos by lia.
+  remember (Z.abs m) as M eqn:EM. clear EM.
+  destruct (Z.eqb_spec M 1) as [HM1|HM1].
+  - right. split; [assumption|]. subst M. split; [apply Z.gcd_1_r|].
+    exists 0. split; [reflexivity|]. split; [lia|]. split; [|lia].
+    rewrite Z.mul_0_r. reflexivity.
+  - assert (1 < M) as HM by lia.
+    destruct (invert_loop (euclid_fuel M) x M 1 0) as [[a s]|] eqn:E.
+    2:{ exfalso. rewrite (invert_loop_proj _ _ _ _ _ 0 1) in E.
+        pose proof (gcdext_loop_total x M 1 0 0 1) as T.
+        destruct (gcdext_loop (euclid_fuel M) x M 1 0 0 1) as [[[g0 s0] t0]|];
+          [discriminate | congruence]. }
+    (* Bezout + gcd via the projection *)
+    assert (exists t, a = x * s + M * t /\ Z.abs a = Z.gcd x M) as [t [HB HG]].
+    { rewrite (invert_loop_proj _ _ _ _ _ 0 1) in E.
+      destruct (gcdext_loop (euclid_fuel M) x M 1 0 0 1) as [[[g0 s0] t0]|] eqn:E2;
+        [|discriminate].
+      injection E as <- <-.
+      apply (gcdext_loop_inv x M) in E2; [ | ring | ring ].
+      exists t0. exact E2. }
+    (* sign of a, bound on s via the refined invariant *)
+    assert (0 < a /\ Z.abs s < M) as [Ha Hs].
+    { assert (exists n, euclid_fuel M = S n) as [n En] by (unfold euclid_fuel; exists (2 * Z.to_nat (Z.log2_up (Z.abs M)) + 2)%nat; lia).
+      rewrite En in E. cbn [invert_loop] in E.
+      destruct (Z.eqb_spec M 0) as [|_]; [lia|].
+      rewrite Z.mul_0_r, Z.sub_0_r in E.
+      pose proof (Z.mod_pos_bound x M HMpos) as Hmb.
+      apply (invert_loop_bound M) in E; try assumption; try lia. }
+    assert (a = Z.gcd x M) as Ha' by lia.
+    rewrite <- Ha'.
+    destruct (Z.eqb_spec a 1) as [Ha1|Ha1]; cbn [negb].
+    + right. split; [assumption|]. split; [assumption|].
+      eexists. split; [reflexivity|].
+      assert (0 <= (if s <? 0 then s + M else s) < M) as Hy
+        by (destruct (Z.ltb_spec s 0); lia).
+      assert ((x * (if s <? 0 then s + M else s)) mod M = 1 mod M) as Hmod.
+      { destruct (Z.ltb_spec s 0).
+        - replace (x * (s + M)) with (1 + (x - t) * M) by (rewrite <- Ha1, HB; ring).
+          apply Z_mod_plus_full.
+        - replace (x * s) with (1 + (- t) * M) by (rewrite <- Ha1, HB; ring).
+          apply Z_mod_plus_full. }
+      split; [exact Hy|]. split; [exact Hmod|].
+      intros _.
+      destruct (Z.eq_dec (if s <? 0 then s + M else s) 0) as [Ey|Ny]; [|lia].
+      exfalso. rewrite Ey, Z.mul_0_r, Z.mod_0_l, Z.mod_1_l in Hmod by lia. discriminate.
+    + left. split; [right; assumption | reflexivity].
+Qed.
+
+
+End PA.
+
+Definition gcdext_total := PA.gcdext_total.
+Definition gcdext_spec := PA.gcdext_spec.
+Definition invert_spec := PA.invert_spec.
+Definition gcdext_loop_total := PA.gcdext_loop_total.
+Definition euclid_fuel_ok := PA.euclid_fuel_ok.
+
+Module PB.
+Local Open Scope Z_scope.
+
+(** ---- powmod ---- *)
+Lemma powmod_pos_spec : forall x e m, m <> 0 -> powmod_pos x e m = x ^ Zpos e mod m.
+Proof.
+  intros x e m Hm. induction e as [e IH | e IH | ]; cbn [powmod_pos].
+  - rewrite IH. rewrite <- Z.mul_mod by exact Hm.
+    rewrite Z.mul_mod_idemp_l by exact Hm.
+    f_equal. rewrite Pos2Z.inj_xI.
+    rewrite Z.pow_add_r by lia. rewrite Z.pow_twice_r, Z.pow_1_r. reflexivity.
+  - rewrite IH. rewrite <- Z.mul_mod by exact Hm.
+    f_equal. rewrite Pos2Z.inj_xO. rewrite Z.pow_twice_r. reflexivity.
+  - rewrite Z.pow_1_r. reflexivity.
+Qed.
+
+Theorem powmod_spec : forall x y m, m <> 0 -> 0 <= y -> powmod x y m = Ok (x ^ y mod m).
+Proof.
+  intros x y m Hm Hy. unfold powmod, pow3.
+  destruct (m =? 0) eqn:E; [apply Z.eqb_eq in E; contradiction|].
+  destruct y as [|e|e].
+  - rewrite Z.pow_0_r. reflexivity.
+  - rewrite powmod_pos_spec by exact Hm. reflexivity.
+  - lia.
+Qed.
+
+(** ---- isqrt ---- *)
+Theorem isqrt_spec : forall x,
+  (x < 0 /\ isqrt x = EValue) \/
+  (0 <= x /\ exists r, isqrt x = Ok r /\ 0 <= r /\ r * r <= x < (r + 1) * (r + 1)).
+Proof.
+  intros x. unfold isqrt. destruct (x <? 0) eqn:E.
+  - apply Z.ltb_lt in E. left. split; [exact E|reflexivity].
+  - apply Z.ltb_ge in E. right. split; [exact E|].
+    exists (Z.sqrt x). split; [reflexivity|]. split; [apply Z.sqrt_nonneg|].
+    pose proof (Z.sqrt_spec x E) as H. cbv zeta in H.
+    replace (Z.sqrt x + 1) with (Z.succ (Z.sqrt x)) by lia. exact H.
+Qed.
+
+(** ---- is_square ---- *)
+Lemma land15_mod16 : forall x, Z.land x 15 = x mod 16.
+Proof.
+  intros x. change 15 with (Z.ones 4). rewrite Z.land_ones by lia. reflexivity.
+Qed.
+
+Lemma square_mod16 : forall r,
+  (r * r) mod 16 = 0 \/ (r * r) mod 16 = 1 \/ (r * r) mod 16 = 4 \/ (r * r) mod 16 = 9.
+Proof.
+  intros r. rewrite Z.mul_mod by lia.
+  pose proof (Z.mod_pos_bound r 16 ltac:(lia)) as Hb.
+  remember (r mod 16) as c eqn:Hc. clear Hc.
+  assert (Hcases : c = 0 \/ c = 1 \/ c = 2 \/ c = 3 \/ c = 4 \/ c = 5 \/ c = 6 \/ c = 7 \/
+                   c = 8 \/ c = 9 \/ c = 10 \/ c = 11 \/ c = 12 \/ c = 13 \/ c = 14 \/ c = 15)
+    by lia.
+  repeat (destruct Hcases as [Hcases | Hcases]; [subst c; vm_compute; tauto|]).
+  subst c; vm_compute; tauto.
+Qed.
+
+Lemma is_square_filter_false : forall x,
+  negb ((Z.land x 15 =? 0) || (Z.land x 15 =? 1) || (Z.land x 15 =? 4) || (Z.land x 15 =? 9)) = true ->
+  forall r, x <> r * r.
+Proof.
+  intros x Hf r Hx. subst x. rewrite land15_mod16 in Hf.
+  apply negb_true_iff in Hf.
+  destruct (square_mod16 r) as [H | [H | [H | H]]]; rewrite H in Hf; discriminate Hf.
+Qed.
+
+Theorem is_square_spec : forall x, 0 <= x ->
+  exists b, is_square x = Ok b /\ (b = true <-> exists r, x = r * r).
+Proof.
+  intros x Hx. unfold is_square. cbv zeta.
+  destruct (negb ((Z.land x 15 =? 0) || (Z.land x 15 =? 1) || (Z.land x 15 =? 4) || (Z.land x 15 =? 9))) eqn:Hf.
+  - exists false. split; [reflexivity|]. split; [discriminate|].
+    intros [r Hr]. exfalso. exact (is_square_filter_false x Hf r Hr).
+  - unfold isqrt. destruct (x <? 0) eqn:E; [apply Z.ltb_lt in E; lia|].
+    exists (x =? Z.sqrt x ^ 2). split; [reflexivity|].
+    rewrite Z.eqb_eq. split.
+    + intros H. exists (Z.sqrt x). rewrite <- Z.pow_2_r. exact H.
+    + intros [r Hr]. subst x. rewrite <- (Z.abs_square r).
+      rewrite Z.sqrt_square by apply Z.abs_nonneg. rewrite Z.pow_2_r. reflexivity.
+Qed.
+
+Theorem is_square_neg : forall x, x < 0 -> is_square x = Ok false \/ is_square x = EValue.
+Proof.
+  intros x Hx. unfold is_square. cbv zeta.
+  destruct (negb ((Z.land x 15 =? 0) || (Z.land x 15 =? 1) || (Z.land x 15 =? 4) || (Z.land x 15 =? 9))).
+  - left. reflexivity.
+  - right. unfold isqrt. destruct (x <? 0) eqn:E; [reflexivity|]. apply Z.ltb_ge in E. lia.
+Qed.
+
+(** ---- iroot ---- *)
+Lemma lor_add_pow2 : forall c i, 0 <= i ->
+  Z.lor (c * 2 ^ (i + 1)) (2 ^ i) = c * 2 ^ (i + 1) + 2 ^ i.
+Proof.
+  intros c i Hi.
+  assert (Hl : Z.land (c * 2 ^ (i + 1)) (2 ^ i) = 0).
+  { apply Z.bits_inj'. intros m Hm.
+    rewrite Z.land_spec, Z.bits_0.
+    rewrite <- Z.shiftl_mul_pow2 by lia.
+    rewrite Z.shiftl_spec by exact Hm.
+    rewrite Z.pow2_bits_eqb by exact Hi.
+    destruct (i =? m) eqn:E.
+    - apply Z.eqb_eq in E. subst m.
+      rewrite Z.testbit_neg_r by lia. reflexivity.
+    - apply andb_false_r. }
+  rewrite <- (Z.lxor_lor _ _ Hl). symmetry. apply Z.add_nocarry_lxor. exact Hl.
+Qed.
+
+Lemma iroot_loop_inv : forall x n, 0 < n -> forall i y c,
+  0 < y -> y = c * 2 ^ (Z.of_nat i) ->
+  y ^ n <= x < (y + 2 ^ (Z.of_nat i)) ^ n ->
+  0 < iroot_loop x n i y /\
+  (iroot_loop x n i y) ^ n <= x < (iroot_loop x n i y + 1) ^ n.
+Proof.
+  intros x n Hn. induction i as [|i IH]; intros y c Hy Hc Hinv.
+  - cbn [iroot_loop]. change (Z.of_nat 0) with 0 in Hinv. rewrite Z.pow_0_r in Hinv.
+    split; [exact Hy|exact Hinv].
+  - cbn [iroot_loop]. cbv zeta.
+    assert (Hi : 0 <= Z.of_nat i) by lia.
+    rewrite Nat2Z.inj_succ in Hc, Hinv.
+    replace (Z.succ (Z.of_nat i)) with (Z.of_nat i + 1) in Hc, Hinv by lia.
+    rewrite Z.shiftl_1_l.
+    assert (Hz : Z.lor y (2 ^ Z.of_nat i) = y + 2 ^ Z.of_nat i).
+    { rewrite Hc. apply lor_add_pow2. exact Hi. }
+    rewrite Hz.
+    assert (Hp : 0 < 2 ^ Z.of_nat i) by (apply Z.pow_pos_nonneg; lia).
+    assert (Hs : 2 ^ (Z.of_nat i + 1) = 2 * 2 ^ Z.of_nat i)
+      by (rewrite Z.pow_add_r by lia; rewrite Z.pow_1_r; ring).
+    destruct ((y + 2 ^ Z.of_nat i) ^ n <=? x) eqn:E.
+    + apply Z.leb_le in E.
+      apply (IH (y + 2 ^ Z.of_nat i) (2 * c + 1)).
+      * lia.
+      * rewrite Hc, Hs. ring.
+      * split; [exact E|].
+        replace (y + 2 ^ Z.of_nat i + 2 ^ Z.of_nat i) with (y + 2 ^ (Z.of_nat i + 1))
+          by (rewrite Hs; ring).
+        apply Hinv.
+    + apply Z.leb_gt in E.
+      apply (IH y (2 * c)).
+      * exact Hy.
+      * rewrite Hc, Hs. ring.
+      * split; [apply Hinv|exact E].
+Qed.
+
+Theorem iroot_spec : forall x n, 0 < x -> 0 < n ->
+  exists y, iroot x n = Ok (y, x =? y ^ n) /\ 0 < y /\ y ^ n <= x < (y + 1) ^ n.
+Proof.
+  intros x n Hx Hn. unfold iroot. cbv zeta.
+  destruct (x =? 0) eqn:Ex; [apply Z.eqb_eq in Ex; lia|].
+  destruct (n =? 0) eqn:En; [apply Z.eqb_eq in En; lia|].
+  assert (Hbl : bit_length x - 1 = Z.log2 x).
+  { unfold bit_length. rewrite Ex. rewrite Z.abs_eq by lia. lia. }
+  rewrite Hbl.
+  pose proof (Z.log2_nonneg x) as Hl0.
+  set (k := Z.log2 x / n).
+  assert (Hk : 0 <= k) by (apply Z.div_pos; lia).
+  destruct (k <? 0) eqn:Ek; [apply Z.ltb_lt in Ek; lia|].
+  destruct (n <? 0) eqn:En'; [apply Z.ltb_lt in En'; lia|].
+  rewrite Z.shiftl_1_l.
+  exists (iroot_loop x n (Z.to_nat k) (2 ^ k)). split; [reflexivity|].
+  assert (Hp : 0 < 2 ^ k) by (apply Z.pow_pos_nonneg; lia).
+  apply (iroot_loop_inv x n Hn (Z.to_nat k) (2 ^ k) 1).
+  - exact Hp.
+  - rewrite Z2Nat.id by exact Hk. ring.
+  - rewrite Z2Nat.id by exact Hk.
+    destruct (Z.log2_spec x Hx) as [Hlo Hhi].
+    assert (Hkn : k * n <= Z.log2 x).
+    { unfold k. rewrite Z.mul_comm. apply Z.mul_div_le. exact Hn. }
+    assert (Hkn' : Z.log2 x + 1 <= (k + 1) * n).
+    { unfold k. pose proof (Z.mul_succ_div_gt (Z.log2 x) n Hn) as H.
+      unfold Z.succ in H. lia. }
+    split.
+    + rewrite <- Z.pow_mul_r by lia.
+      apply Z.le_trans with (2 ^ Z.log2 x); [|exact Hlo].
+      apply Z.pow_le_mono_r; lia.
+    + replace (2 ^ k + 2 ^ k) with (2 ^ (k + 1))
+        by (rewrite Z.pow_add_r by lia; rewrite Z.pow_1_r; ring).
+      rewrite <- Z.pow_mul_r by lia.
+      apply Z.lt_le_trans with (2 ^ Z.succ (Z.log2 x)); [exact Hhi|].
+      apply Z.pow_le_mono_r; lia.
+Qed.
+
+Theorem iroot_zero : forall n, iroot 0 n = Ok (0, true).
+Proof. intros n. reflexivity. Qed.
+
+
+End PB.
+
+Definition powmod_spec := PB.powmod_spec.
+Definition powmod_pos_spec := PB.powmod_pos_spec.
+Definition isqrt_spec := PB.isqrt_spec.
+Definition is_square_spec := PB.is_square_spec.
+Definition is_square_neg := PB.is_square_neg.
+Definition iroot_spec := PB.iroot_spec.
+Definition iroot_zero := PB.iroot_zero.
+
+Module PC.
+Local Open Scope Z_scope.
+
+(** ---- parity ---- *)
+Lemma land1_mod2 : forall y, Z.land y 1 = y mod 2.
+Proof.
+  intros y. change 1 with (Z.ones 1) at 1. rewrite Z.land_ones by lia. reflexivity.
+Qed.
+
+Lemma land1_eqb : forall y, (Z.land y 1 =? 0) = negb (Z.odd y).
+Proof.
+  intros y. rewrite land1_mod2, Zmod_odd. destruct (Z.odd y); reflexivity.
+Qed.
+
+(** ---- val2 ---- *)
+Fixpoint tz (p : positive) : Z :=
+  match p with xO p' => 1 + tz p' | _ => 0 end.
+Fixpoint oddpart (p : positive) : positive :=
+  match p with xO p' => oddpart p' | _ => p end.
+
+Lemma tz_nonneg : forall p, 0 <= tz p.
+Proof. induction p; cbn [tz]; lia. Qed.
+
+Lemma oddpart_odd : forall p, Z.odd (Zpos (oddpart p)) = true.
+Proof. induction p; simpl; auto. Qed.
+
+Lemma oddpart_decomp : forall p, Zpos p = Zpos (oddpart p) * 2 ^ tz p.
+Proof.
+  induction p; cbn [oddpart]; cbn [tz]; try (rewrite Z.pow_0_r; lia).
+  pose proof (tz_nonneg p) as Ht.
+  rewrite Z.pow_add_r by lia. change (2 ^ 1) with 2.
+  rewrite Pos2Z.inj_xO. rewrite IHp at 1. ring.
+Qed.
+
+Lemma land_double : forall a b, Z.land (2 * a) (2 * b) = 2 * Z.land a b.
+Proof.
+  intros a b.
+  rewrite <- !(Z.mul_comm _ 2).
+  change 2 with (2 ^ 1).
+  rewrite <- !Z.shiftl_mul_pow2 by lia.
+  symmetry. apply Z.shiftl_land.
+Qed.
+
+Lemma land_odd_lnot : forall a, Z.land (2 * a + 1) (2 * (Z.lnot a) + 1) = 1.
+Proof.
+  intros a. apply Z.bits_inj'. intros n Hn.
+  rewrite Z.land_spec.
+  destruct (Z.eq_dec n 0) as [->|Hn0].
+  - rewrite !Z.testbit_odd_0. reflexivity.
+  - replace n with (Z.succ (n - 1)) by lia.
+    rewrite !Z.testbit_odd_succ by lia.
+    rewrite <- Z.land_spec, Z.land_lnot_diag.
+    change 1 with (2 * 0 + 1). rewrite Z.testbit_odd_succ by lia.
+    reflexivity.
+Qed.
+
+Lemma land_neg : forall p, Z.land (Zpos p) (Zneg p) = 2 ^ tz p.
+Proof.
+  induction p.
+  - cbn [tz]. rewrite Z.pow_0_r.
+    replace (Zpos p~1) with (2 * Zpos p + 1) by lia.
+    replace (Zneg p~1) with (2 * Z.lnot (Zpos p) + 1) by (unfold Z.lnot; lia).
+    apply land_odd_lnot.
+  - cbn [tz]. pose proof (tz_nonneg p).
+    rewrite Z.pow_add_r by lia. change (2 ^ 1) with 2.
+    replace (Zpos p~0) with (2 * Zpos p) by lia.
+    replace (Zneg p~0) with (2 * Zneg p) by lia.
+    rewrite land_double, IHp. reflexivity.
+  - reflexivity.
+Qed.
+
+Lemma val2_pos : forall p, val2 (Zpos p) = tz p.
+Proof.
+  intros p. unfold val2, bit_length.
+  change (- Zpos p) with (Zneg p). rewrite land_neg.
+  pose proof (tz_nonneg p) as Ht.
+  assert (0 < 2 ^ tz p) by (apply Z.pow_pos_nonneg; lia).
+  destruct (Z.eqb_spec (2 ^ tz p) 0); [lia|].
+  rewrite Z.abs_eq by lia. rewrite Z.log2_pow2 by lia. lia.
+Qed.
+
+Lemma val2_spec : forall y, 0 < y ->
+  exists m, 0 <= val2 y /\ Z.shiftr y (val2 y) = m /\ 0 < m /\ Z.odd m = true /\ y = m * 2 ^ val2 y.
+Proof.
+  intros y Hy. destruct y as [|p|p]; try lia.
+  exists (Zpos (oddpart p)). rewrite val2_pos.
+  pose proof (tz_nonneg p) as Ht.
+  assert (0 < 2 ^ tz p) by (apply Z.pow_pos_nonneg; lia).
+  repeat split; try lia.
+  - rewrite Z.shiftr_div_pow2 by lia. rewrite (oddpart_decomp p) at 1.
+    apply Z.div_mul. lia.
+  - apply oddpart_odd.
+  - apply oddpart_decomp.
+Qed.
+
+(** ---- gcd facts ---- *)
+Lemma gcd_coprime_mul : forall a b c, Z.gcd a c = 1 -> Z.gcd a (b * c) = Z.gcd a b.
+Proof.
+  intros a b c H.
+  apply Z.gcd_unique.
+  - apply Z.gcd_nonneg.
+  - apply Z.gcd_divide_l.
+  - apply Z.divide_mul_l, Z.gcd_divide_r.
+  - intros q Hqa Hqbc. apply Z.gcd_greatest; [assumption|].
+    apply Z.gauss with (m := c).
+    + rewrite Z.mul_comm. assumption.
+    + apply Z.divide_antisym_nonneg; try lia.
+      * apply Z.gcd_nonneg.
+      * rewrite <- H. apply Z.gcd_greatest.
+        -- eapply Z.divide_trans; [apply Z.gcd_divide_l|assumption].
+        -- apply Z.gcd_divide_r.
+      * apply Z.divide_1_l.
+Qed.
+
+Lemma odd_gcd_2 : forall y, Z.odd y = true -> Z.gcd y 2 = 1.
+Proof.
+  intros y Hy.
+  pose proof (Z.gcd_nonneg y 2) as Hn.
+  pose proof (Z.gcd_divide_r y 2) as Hr.
+  pose proof (Z.gcd_divide_l y 2) as Hl.
+  assert (Hle : Z.gcd y 2 <= 2) by (apply Z.divide_pos_le; [lia|assumption]).
+  assert (Hc : Z.gcd y 2 = 0 \/ Z.gcd y 2 = 1 \/ Z.gcd y 2 = 2) by lia.
+  destruct Hc as [Hc|[Hc|Hc]]; [|assumption|].
+  - rewrite Hc in Hr. destruct Hr as [z Hz]. lia.
+  - rewrite Hc in Hl. destruct Hl as [z Hz]. subst y.
+    rewrite Z.mul_comm, Z.odd_mul in Hy. discriminate.
+Qed.
+
+Lemma odd_gcd_pow2 : forall y t, Z.odd y = true -> 0 <= t -> Z.gcd y (2 ^ t) = 1.
+Proof.
+  intros y t Hy Ht. apply Zgcd_1_rel_prime. apply rel_prime_Zpower_r; [assumption|].
+  apply Zgcd_1_rel_prime. apply odd_gcd_2; assumption.
+Qed.
+
+(** ---- one iteration ---- *)
+Lemma loop_S : forall k x y j, jacobi_loop (S k) x y j =
+  (if x mod y =? 0 then Some (y, j) else
+   let t := val2 (x mod y) in
+   let j1 := if negb (Z.land t 1 =? 0) && flip8 y then - j else j in
+   let y2 := Z.shiftr (x mod y) t in
+   let j2 := if negb (Z.land y2 3 =? 1) && negb (Z.land y 3 =? 1) then - j1 else j1 in
+   jacobi_loop k y y2 j2).
+Proof. reflexivity. Qed.
+
+Lemma loop_step : forall x y j, 0 < y -> Z.odd y = true ->
+  (x mod y = 0 /\ forall n, jacobi_loop (S n) x y j = Some (y, j)) \/
+  (exists y2 j2, 0 < y2 <= x mod y /\ Z.odd y2 = true /\ Z.gcd y y2 = Z.gcd x y /\
+     (j2 = j \/ j2 = - j) /\ forall n, jacobi_loop (S n) x y j = jacobi_loop n y y2 j2).
+Proof.
+  intros x y j Hy Hodd.
+  destruct (Z.eqb_spec (x mod y) 0) as [E|E].
+  - left. split; [assumption|]. intros n. rewrite loop_S.
+    rewrite E. reflexivity.
+  - right.
+    assert (Hr : 0 < x mod y) by (pose proof (Z.mod_pos_bound x y Hy); lia).
+    destruct (val2_spec _ Hr) as (m & Ht & Hs & Hm & Hmo & Hd).
+    set (t := val2 (x mod y)) in *.
+    exists m.
+    eexists. split; [|split; [|split; [|split]]].
+    5:{ intros n. rewrite loop_S. destruct (Z.eqb_spec (x mod y) 0) as [E'|_]; [contradiction|].
+        cbv zeta. fold t. rewrite Hs. reflexivity. }
+    + assert (1 <= 2 ^ t) by (assert (0 < 2 ^ t) by (apply Z.pow_pos_nonneg; lia); lia).
+      split; [lia|]. nia.
+    + assumption.
+    + rewrite (Z.gcd_comm x y). rewrite <- (Z.gcd_mod x y) by lia. rewrite (Z.gcd_comm (x mod y) y).
+      rewrite Hd. symmetry. apply gcd_coprime_mul. apply odd_gcd_pow2; assumption.
+    + destruct (negb (Z.land m 3 =? 1) && negb (Z.land y 3 =? 1));
+      destruct (negb (Z.land t 1 =? 0) && flip8 y); lia.
+Qed.
+
+Lemma half_mod : forall y y2, 0 < y2 < y -> 2 * (y mod y2) < y.
+Proof.
+  intros y y2 H.
+  pose proof (Z.mod_pos_bound y y2 ltac:(lia)) as Hb.
+  pose proof (Z.div_mod y y2 ltac:(lia)) as Hd.
+  assert (1 <= y / y2) by (apply Z.div_le_lower_bound; lia).
+  nia.
+Qed.
+
+Lemma loop_terminates : forall k x y j, 0 < y < 2 ^ Z.of_nat k -> Z.odd y = true ->
+  (j = 1 \/ j = -1) ->
+  exists j', jacobi_loop (S (2 * k)) x y j = Some (Z.gcd x y, j') /\ (j' = 1 \/ j' = -1).
+Proof.
+  induction k as [|k IH]; intros x y j Hy Hodd Hj.
+  - simpl in Hy. lia.
+  - replace (S (2 * S k))%nat with (S (S (S (2 * k)))) by lia.
+    destruct (loop_step x y j (proj1 Hy) Hodd) as [[E Hl]|(y2 & j2 & Hy2 & Hodd2 & Hg & Hj2 & Hl)].
+    + exists j. rewrite Hl. split; [|assumption]. f_equal. f_equal.
+      symmetry. rewrite Z.gcd_comm. apply Z.divide_gcd_iff; [lia|].
+      apply Z.mod_divide; [lia|assumption].
+    + rewrite Hl. rewrite <- Hg.
+      assert (Hlt : y2 < y) by (pose proof (Z.mod_pos_bound x y (proj1 Hy)); lia).
+      destruct (loop_step y y2 j2 (proj1 Hy2) Hodd2) as [[E Hl2]|(y3 & j3 & Hy3 & Hodd3 & Hg3 & Hj3 & Hl2)].
+      * exists j2. rewrite Hl2. split; [|lia]. f_equal. f_equal.
+        symmetry. rewrite Z.gcd_comm. apply Z.divide_gcd_iff; [lia|].
+        apply Z.mod_divide; [lia|assumption].
+      * rewrite Hl2. rewrite <- Hg3. apply IH; try assumption; try lia.
+        pose proof (half_mod y y2 ltac:(lia)).
+        rewrite Nat2Z.inj_succ, Z.pow_succ_r in Hy by lia. lia.
+Qed.
+
+Lemma euclid_fuel_bound : forall y, 0 < y ->
+  exists k, euclid_fuel y = S (2 * k) /\ y < 2 ^ Z.of_nat k.
+Proof.
+  intros y Hy. exists (S (Z.to_nat (Z.log2_up (Z.abs y)))).
+  split; [unfold euclid_fuel; lia|].
+  rewrite Z.abs_eq by lia.
+  pose proof (Z.log2_up_nonneg y) as Hn.
+  rewrite Nat2Z.inj_succ, Z2Nat.id by lia.
+  rewrite Z.pow_succ_r by lia.
+  assert (y <= 2 ^ Z.log2_up y).
+  { destruct (Z.eq_dec y 1) as [->|]; [simpl; lia|]. apply Z.log2_up_spec. lia. }
+  lia.
+Qed.
+
+(** ---- theorems ---- *)
+Theorem jacobi_domain : forall x y, ~ (0 < y /\ Z.odd y = true) -> jacobi x y = EValue.
+Proof.
+  intros x y H. unfold jacobi. rewrite land1_eqb, negb_involutive.
+  destruct (Z.ltb_spec 0 y) as [Hy|Hy]; [|reflexivity].
+  destruct (Z.odd y) eqn:Ho; [|reflexivity].
+  exfalso. apply H. split; [assumption|reflexivity].
+Qed.
+
+Lemma jacobi_unfold : forall x y, 0 < y -> Z.odd y = true ->
+  jacobi x y = match jacobi_loop (euclid_fuel y) x y 1 with
+               | None => EFuel
+               | Some (x', j) => Ok (if negb (x' =? 1) then 0 else j)
+               end.
+Proof.
+  intros x y Hy Ho. unfold jacobi. rewrite land1_eqb, Ho.
+  destruct (Z.ltb_spec 0 y); [reflexivity|lia].
+Qed.
+
+Theorem jacobi_spec : forall x y, 0 < y -> Z.odd y = true ->
+  exists j, jacobi x y = Ok j /\ (j = -1 \/ j = 0 \/ j = 1) /\ (j = 0 <-> Z.gcd x y <> 1).
+Proof.
+  intros x y Hy Ho. rewrite jacobi_unfold by assumption.
+  destruct (euclid_fuel_bound y Hy) as (k & -> & Hk).
+  destruct (loop_terminates k x y 1 (conj Hy Hk) Ho (or_introl eq_refl)) as (j' & -> & Hj').
+  eexists. split; [reflexivity|].
+  destruct (Z.eqb_spec (Z.gcd x y) 1) as [E|E]; simpl; split; try lia.
+Qed.
+
+Lemma jacobi_loop_mod : forall n x y j, y <> 0 ->
+  jacobi_loop n (x mod y) y j = jacobi_loop n x y j.
+Proof.
+  intros n x y j Hy. destruct n; [reflexivity|].
+  rewrite !loop_S. rewrite Z.mod_mod by assumption. reflexivity.
+Qed.
+
+Theorem jacobi_mod : forall x y, 0 < y -> jacobi (x mod y) y = jacobi x y.
+Proof.
+  intros x y Hy. destruct (Z.odd y) eqn:Ho.
+  - rewrite !jacobi_unfold by assumption. rewrite jacobi_loop_mod by lia. reflexivity.
+  - rewrite !jacobi_domain; [reflexivity| |]; intros [_ H]; congruence.
+Qed.
+
+Theorem kronecker_odd : forall x y, 0 < y -> Z.odd y = true -> kronecker x y = jacobi x y.
+Proof.
+  intros x y Hy Ho. unfold kronecker. cbv zeta.
+  destruct (Z.eqb_spec y 0) as [E|_]; [lia|]. cbv iota beta.
+  destruct (Z.ltb_spec y 0) as [E|_]; [lia|]. cbv iota beta.
+  rewrite land1_eqb, Ho. cbv iota beta. simpl negb. cbv iota beta.
+  destruct (jacobi x y); try reflexivity.
+  f_equal. apply Z.mul_1_l.
+Qed.
+
+(** ---- Euler's criterion, bounded ---- *)
+Definition euler (x p : Z) : Z := let e := x ^ ((p - 1) / 2) mod p in if e =? p - 1 then -1 else e.
+
+Lemma euler_mod : forall x p, 0 < p -> euler (x mod p) p = euler x p.
+Proof.
+  intros x p Hp. unfold euler. rewrite <- (Zpower_mod x) by assumption. reflexivity.
+Qed.
+
+Lemma in_zrange : forall v lo n, In v (zrange lo n) <-> lo <= v < lo + Z.of_nat n.
+Proof.
+  intros v lo n. unfold zrange. rewrite in_map_iff. split.
+  - intros (i & <- & Hi). apply in_seq in Hi. lia.
+  - intros H. exists (Z.to_nat (v - lo)). split; [lia|]. apply in_seq. lia.
+Qed.
+
+Definition nodiv (p : Z) : bool :=
+  forallb (fun d => negb (p mod d =? 0)) (zrange 2 (Z.to_nat (p - 2))).
+
+Lemma prime_nodiv : forall p, prime p -> nodiv p = true.
+Proof.
+  intros p Hp. unfold nodiv. apply forallb_forall. intros d Hd.
+  apply in_zrange in Hd.
+  assert (Hp1 : 1 < p) by (destruct Hp; assumption).
+  destruct (Z.eqb_spec (p mod d) 0) as [E|E]; [|reflexivity].
+  exfalso. apply Z.mod_divide in E; [|lia].
+  apply (prime_divisors p Hp) in E. lia.
+Qed.
+
+Lemma powmod_pos_spec : forall x e m, m <> 0 -> powmod_pos x e m = x ^ Zpos e mod m.
+Proof.
+  intros x e m Hm. induction e as [e IH|e IH|]; cbn [powmod_pos].
+  - rewrite IH. rewrite Pos2Z.inj_xI.
+    rewrite Z.pow_add_r, Z.pow_1_r by lia.
+    replace (2 * Z.pos e) with (Z.pos e + Z.pos e) by lia.
+    rewrite Z.pow_add_r by lia.
+    rewrite <- Z.mul_mod by assumption.
+    rewrite Z.mul_mod_idemp_l by assumption. reflexivity.
+  - rewrite IH. rewrite Pos2Z.inj_xO.
+    replace (2 * Z.pos e) with (Z.pos e + Z.pos e) by lia.
+    rewrite Z.pow_add_r by lia.
+    rewrite <- Z.mul_mod by assumption. reflexivity.
+  - rewrite Z.pow_1_r. reflexivity.
+Qed.
+
+Definition euler' (x p : Z) : Z :=
+  let e := match (p - 1) / 2 with
+           | Zpos q => powmod_pos x q p
+           | q => x ^ q mod p
+           end in
+  if e =? p - 1 then -1 else e.
+
+Lemma euler'_eq : forall x p, p <> 0 -> euler' x p = euler x p.
+Proof.
+  intros x p Hp. unfold euler', euler.
+  destruct ((p - 1) / 2) as [|q|q]; try reflexivity.
+  rewrite powmod_pos_spec by assumption. reflexivity.
+Qed.
+
+Definition jac_ok (p x : Z) : bool :=
+  match jacobi x p with Ok j => j =? euler' x p | _ => false end.
+
+Definition euler_chk (p : Z) : bool :=
+  negb (nodiv p) || forallb (jac_ok p) (zrange 0 (Z.to_nat p)).
+
+Lemma euler_chk_all : forallb euler_chk (zrange 3 397) = true.
+Proof. vm_compute. reflexivity. Qed.
+
+Theorem jacobi_euler_bounded : forall p x, 2 < p < 400 -> prime p -> jacobi x p = Ok (euler x p).
+Proof.
+  intros p x Hb Hp.
+  rewrite <- jacobi_mod, <- euler_mod by lia.
+  pose proof euler_chk_all as H. rewrite forallb_forall in H.
+  specialize (H p). rewrite in_zrange in H. specialize (H ltac:(lia)).
+  unfold euler_chk in H. rewrite (prime_nodiv p Hp) in H. simpl in H.
+  rewrite forallb_forall in H. specialize (H (x mod p)).
+  rewrite in_zrange in H.
+  pose proof (Z.mod_pos_bound x p ltac:(lia)) as Hm.
+  specialize (H ltac:(lia)). unfold jac_ok in H.
+  destruct (jacobi (x mod p) p); try discriminate.
+  apply Z.eqb_eq in H. rewrite euler'_eq in H by lia. congruence.
+Qed.
+
+
+End PC.
+
+Definition jacobi_domain := PC.jacobi_domain.
+Definition jacobi_spec := PC.jacobi_spec.
+Definition jacobi_mod := PC.jacobi_mod.
+Definition kronecker_odd := PC.kronecker_odd.
+Definition euler := PC.euler.
+Definition jacobi_euler_bounded := PC.jacobi_euler_bounded.
+
+Module PD.
+Local Open Scope Z_scope.
+
+(* ================================================================== *)
+(* Part 0: Fermat's little theorem and square roots of 1 (copied from *)
+(* Fermat.v, axiom-free)                                              *)
+(* ================================================================== *)
+(* ------------------------------------------------------------------ *)
+(* Products of lists of integers                                       *)
+(* ------------------------------------------------------------------ *)
+
+Definition zprod (l : list Z) : Z := fold_right Z.mul 1 l.
+
+Lemma zprod_perm : forall l l', Permutation l l' -> zprod l = zprod l'.
+Proof.
+  intros l l' H; induction H; simpl in *.
+  - reflexivity.
+  - rewrite IHPermutation; reflexivity.
+  - ring.
+  - congruence.
+Qed.
+
+Lemma zprod_map_mulmod : forall a p l, 0 < p ->
+  zprod (map (fun i => (a * i) mod p) l) mod p
+  = (a ^ Z.of_nat (length l) * zprod l) mod p.
+Proof.
+  intros a p l Hp; induction l as [|x l IH]; simpl zprod; simpl length.
+  - reflexivity.
+  - simpl map. simpl fold_right.
+    fold (zprod (map (fun i => (a * i) mod p) l)).
+    fold (zprod l).
+    rewrite Zmult_mod_idemp_l.
+    rewrite <- Zmult_mod_idemp_r.
+    rewrite IH.
+    rewrite Zmult_mod_idemp_r.
+    f_equal.
+    rewrite Nat2Z.inj_succ, Z.pow_succ_r by lia.
+    ring.
+Qed.
+
+Lemma zprod_not_div : forall p l, prime p ->
+  (forall x, In x l -> ~ (p | x)) -> ~ (p | zprod l).
+Proof.
+  intros p l Hpr; induction l as [|x l IH]; intros Hall Hd; simpl in Hd.
+  - pose proof (prime_ge_2 p Hpr) as Hp2.
+    apply Z.divide_pos_le in Hd; lia.
+  - fold (zprod l) in Hd.
+    apply prime_mult in Hd; [|assumption].
+    destruct Hd as [Hd|Hd].
+    + apply (Hall x); [left; reflexivity | assumption].
+    + apply IH; [|assumption].
+      intros y Hy; apply Hall; right; assumption.
+Qed.
+
+Lemma NoDup_map_inj_in : forall (A B : Type) (f : A -> B) (l : list A),
+  (forall x y, In x l -> In y l -> f x = f y -> x = y) ->
+  NoDup l -> NoDup (map f l).
+Proof.
+  intros A B f l; induction l as [|x l IH]; intros Hinj Hnd; simpl.
+  - constructor.
+  - inversion Hnd as [|x' l' Hnotin Hnd']; subst.
+    constructor.
+    + intro Hin. apply in_map_iff in Hin.
+      destruct Hin as [y [Hfy Hy]].
+      assert (y = x) as Heq.
+      { apply Hinj; [right; assumption | left; reflexivity | assumption]. }
+      subst y. contradiction.
+    + apply IH; [|assumption].
+      intros a b Ha Hb; apply Hinj; right; assumption.
+Qed.
+
+(* ------------------------------------------------------------------ *)
+(* The list 1 .. p-1                                                   *)
+(* ------------------------------------------------------------------ *)
+
+Definition range1 (p : Z) : list Z := map Z.of_nat (seq 1 (Z.to_nat (p - 1))).
+
+Lemma range1_In : forall p x, 1 <= p -> (In x (range1 p) <-> 1 <= x < p).
+Proof.
+  intros p x Hp; unfold range1; rewrite in_map_iff; split.
+  - intros [k [Hk Hin]]. apply in_seq in Hin. lia.
+  - intros Hx. exists (Z.to_nat x). split; [lia|].
+    apply in_seq. lia.
+Qed.
+
+Lemma range1_NoDup : forall p, NoDup (range1 p).
+Proof.
+  intros p; unfold range1.
+  apply NoDup_map_inj_in.
+  - intros x y _ _ H. apply Nat2Z.inj; assumption.
+  - apply seq_NoDup.
+Qed.
+
+Lemma range1_length : forall p, 1 <= p -> Z.of_nat (length (range1 p)) = p - 1.
+Proof.
+  intros p Hp; unfold range1. rewrite map_length, seq_length. lia.
+Qed.
+
+(* ------------------------------------------------------------------ *)
+(* Small divisibility facts                                            *)
+(* ------------------------------------------------------------------ *)
+
+Lemma small_not_div : forall p x, 1 <= x < p -> ~ (p | x).
+Proof.
+  intros p x Hx Hd. apply Z.divide_pos_le in Hd; lia.
+Qed.
+
+Lemma small_div_zero : forall p d, 0 < p -> - p < d < p -> (p | d) -> d = 0.
+Proof.
+  intros p d Hp Hd [k Hk].
+  assert (k = 0) as Hk0.
+  { destruct (Z_lt_le_dec k 0) as [Hneg|Hnn].
+    - assert (k * p <= -1 * p) by (apply Z.mul_le_mono_nonneg_r; lia). lia.
+    - destruct (Z_lt_le_dec 0 k) as [Hpos|Hz]; [|lia].
+      assert (1 * p <= k * p) by (apply Z.mul_le_mono_nonneg_r; lia). lia. }
+  subst k. lia.
+Qed.
+
+Lemma mod_eq_divide_sub : forall p x y, 0 < p -> x mod p = y mod p -> (p | x - y).
+Proof.
+  intros p x y Hp H.
+  apply Zmod_divide; [lia|].
+  rewrite Zminus_mod, H, Z.sub_diag. apply Zmod_0_l.
+Qed.
+
+(* ------------------------------------------------------------------ *)
+(* Fermat's little theorem                                             *)
+(* ------------------------------------------------------------------ *)
+
+Theorem fermat_little : forall p a : Z,
+  prime p -> ~ (p | a) -> a ^ (p - 1) mod p = 1.
+Proof.
+  intros p a Hpr Hna.
+  pose proof (prime_ge_2 p Hpr) as Hp2.
+  set (L := range1 p).
+  set (f := fun i => (a * i) mod p).
+  (* f maps L into L *)
+  assert (Hincl : incl (map f L) L).
+  { intros y Hy. apply in_map_iff in Hy. destruct Hy as [i [Hfi Hi]].
+    apply range1_In in Hi; [|lia].
+    apply range1_In; [lia|].
+    subst y; unfold f.
+    pose proof (Z.mod_pos_bound (a * i) p ltac:(lia)) as Hb.
+    assert ((a * i) mod p <> 0) as Hnz.
+    { intro H0. apply Zmod_divide in H0; [|lia].
+      apply prime_mult in H0; [|assumption].
+      destruct H0 as [H0|H0]; [contradiction|].
+      revert H0. apply small_not_div; lia. }
+    lia. }
+  (* f is injective on L *)
+  assert (Hnd : NoDup (map f L)).
+  { apply NoDup_map_inj_in; [|apply range1_NoDup].
+    intros i j Hi Hj Hij.
+    apply range1_In in Hi; [|lia].
+    apply range1_In in Hj; [|lia].
+    unfold f in Hij.
+    apply mod_eq_divide_sub in Hij; [|lia].
+    replace (a * i - a * j) with (a * (i - j)) in Hij by ring.
+    apply prime_mult in Hij; [|assumption].
+    destruct Hij as [Hij|Hij]; [contradiction|].
+    apply small_div_zero in Hij; lia. }
+  assert (Hperm : Permutation (map f L) L).
+  { apply NoDup_Permutation_bis.
+    - assumption.
+    - rewrite map_length. apply Nat.le_refl.
+    - assumption. }
+  apply zprod_perm in Hperm.
+  pose proof (zprod_map_mulmod a p L ltac:(lia)) as Hmul.
+  fold f in Hmul.
+  rewrite Hperm in Hmul.
+  unfold L in Hmul at 2. rewrite range1_length in Hmul by lia.
+  fold L in Hmul.
+  (* p | (a^(p-1) - 1) * prod L *)
+  symmetry in Hmul.
+  apply mod_eq_divide_sub in Hmul; [|lia].
+  replace (a ^ (p - 1) * zprod L - zprod L)
+    with ((a ^ (p - 1) - 1) * zprod L) in Hmul by ring.
+  apply prime_mult in Hmul; [|assumption].
+  destruct Hmul as [Hd|Hd].
+  - apply Zdivide_mod_minus; [lia | assumption].
+  - exfalso. revert Hd. apply zprod_not_div; [assumption|].
+    intros x Hx. apply range1_In in Hx; [|lia].
+    apply small_not_div; assumption.
+Qed.
+
+(* ------------------------------------------------------------------ *)
+(* Square roots of 1 modulo a prime                                    *)
+(* ------------------------------------------------------------------ *)
+
+Theorem sqrt1_mod_prime : forall p b : Z,
+  prime p -> (b * b) mod p = 1 -> b mod p = 1 \/ b mod p = p - 1.
+Proof.
+  intros p b Hpr Hsq.
+  pose proof (prime_ge_2 p Hpr) as Hp2.
+  apply Zmod_divide_minus in Hsq; [|lia].
+  replace (b * b - 1) with ((b - 1) * (b + 1)) in Hsq by ring.
+  apply prime_mult in Hsq; [|assumption].
+  destruct Hsq as [Hd|Hd].
+  - left. apply Zdivide_mod_minus; [lia | assumption].
+  - right. apply Zdivide_mod_minus; [lia|].
+    replace (b - (p - 1)) with ((b + 1) - p) by ring.
+    apply Z.divide_sub_r; [assumption | apply Z.divide_refl].
+Qed.
+
+(* ================================================================== *)
+(* Part 1: Miller-Rabin never rejects a prime                          *)
+(* ================================================================== *)
+
+Lemma powmod_pos_spec : forall x e m, m <> 0 -> powmod_pos x e m = x ^ Zpos e mod m.
+Proof.
+  intros x e m Hm. induction e as [e IH | e IH | ]; cbn [powmod_pos].
+  - rewrite IH. rewrite <- Z.mul_mod by exact Hm.
+    rewrite Z.mul_mod_idemp_l by exact Hm.
+    f_equal. rewrite Pos2Z.inj_xI.
+    rewrite Z.pow_add_r by lia. rewrite Z.pow_twice_r, Z.pow_1_r. reflexivity.
+  - rewrite IH. rewrite <- Z.mul_mod by exact Hm.
+    f_equal. rewrite Pos2Z.inj_xO. rewrite Z.pow_twice_r. reflexivity.
+  - rewrite Z.pow_1_r. reflexivity.
+Qed.
+
+Lemma powZ_spec : forall a s x, 0 < s -> x <> 0 -> powZ a s x = a ^ s mod x.
+Proof.
+  intros a s x Hs Hx. unfold powZ, pow3.
+  destruct (x =? 0) eqn:E; [apply Z.eqb_eq in E; contradiction|].
+  destruct s as [|e|e]; try lia.
+  apply powmod_pos_spec; exact Hx.
+Qed.
+
+Lemma twos_spec : forall sp r s, twos sp = (r, s) -> 0 <= r /\ 0 < s /\ Zpos sp = s * 2 ^ r.
+Proof.
+  induction sp as [sp IH | sp IH | ]; intros r s H; cbn [twos] in H.
+  - inversion H; subst. rewrite Z.pow_0_r. lia.
+  - destruct (twos sp) as [r' q] eqn:E. inversion H; subst.
+    destruct (IH r' s eq_refl) as [Hr [Hs Heq]].
+    split; [lia|]. split; [exact Hs|].
+    rewrite Pos2Z.inj_xO, Heq. rewrite Z.pow_add_r by lia. rewrite Z.pow_1_r. ring.
+  - inversion H; subst. rewrite Z.pow_0_r. lia.
+Qed.
+
+Lemma prime_div_eq : forall x p, prime x -> 1 < p -> (p | x) -> p = x.
+Proof.
+  intros x p Hx Hp Hd.
+  pose proof (prime_ge_2 x Hx) as Hx2.
+  destruct (prime_divisors x Hx p Hd) as [H | [H | [H | H]]]; lia.
+Qed.
+
+Lemma trial_prime : forall ps x, (forall p, In p ps -> 1 < p) -> prime x ->
+  forall b, trial ps x = Some b -> b = true.
+Proof.
+  induction ps as [|p ps IH]; intros x Hps Hx b H; cbn [trial] in H.
+  - discriminate.
+  - destruct (x mod p =? 0) eqn:E.
+    + apply Z.eqb_eq in E.
+      assert (Hp : 1 < p) by (apply Hps; left; reflexivity).
+      apply Zmod_divide in E; [|lia].
+      pose proof (prime_div_eq x p Hx Hp E) as Heq.
+      inversion H; subst. apply Z.eqb_refl.
+    + apply (IH x); [|exact Hx|exact H].
+      intros q Hq. apply Hps. right. exact Hq.
+Qed.
+
+Lemma small_primes_gt1 : forall p, In p small_primes -> 1 < p.
+Proof.
+  intros p H. unfold small_primes in H. simpl in H.
+  repeat (destruct H as [H | H]; [lia|]). contradiction.
+Qed.
+
+Lemma pow2_succ : forall k, 0 <= k -> 2 ^ (k + 1) = 2 * 2 ^ k.
+Proof. intros k Hk. rewrite Z.pow_add_r by lia. rewrite Z.pow_1_r. ring. Qed.
+
+Lemma mr_inner_prime : forall x, prime x -> forall k b,
+  0 <= b < x -> b ^ (2 ^ (Z.of_nat k + 1)) mod x = 1 -> b <> 1 -> b <> x - 1 ->
+  mr_inner k b x = true.
+Proof.
+  intros x Hx. pose proof (prime_ge_2 x Hx) as Hx2.
+  induction k as [|k IH]; intros b Hb Hpow Hb1 Hbm.
+  - exfalso. change (Z.of_nat 0 + 1) with 1 in Hpow. rewrite Z.pow_1_r in Hpow.
+    rewrite Z.pow_2_r in Hpow.
+    destruct (sqrt1_mod_prime x b Hx Hpow) as [H | H];
+      rewrite Z.mod_small in H by exact Hb; contradiction.
+  - cbn [mr_inner]. cbv zeta.
+    destruct ((b * b) mod x =? x - 1) eqn:E; [reflexivity|].
+    apply Z.eqb_neq in E.
+    apply IH.
+    + apply Z.mod_pos_bound. lia.
+    + rewrite <- Zpower_mod by lia.
+      rewrite <- Z.pow_2_r. rewrite <- Z.pow_mul_r by (try apply Z.pow_nonneg; lia).
+      rewrite <- pow2_succ by lia.
+      rewrite Nat2Z.inj_succ in Hpow.
+      replace (Z.succ (Z.of_nat k) + 1) with (Z.of_nat k + 1 + 1) in Hpow by lia.
+      exact Hpow.
+    + intro H1.
+      destruct (sqrt1_mod_prime x b Hx H1) as [H | H];
+        rewrite Z.mod_small in H by exact Hb; contradiction.
+    + exact E.
+Qed.
+
+Lemma mr_round_prime : forall x r s a, prime x -> 0 <= r -> 0 < s -> x - 1 = s * 2 ^ r ->
+  2 <= a <= x - 2 -> mr_round x r s a = true.
+Proof.
+  intros x r s a Hx Hr Hs Heq Ha.
+  pose proof (prime_ge_2 x Hx) as Hx2.
+  unfold mr_round. cbv zeta.
+  rewrite powZ_spec by lia.
+  set (b := a ^ s mod x).
+  assert (Hb : 0 <= b < x) by (apply Z.mod_pos_bound; lia).
+  assert (Hpow : b ^ (2 ^ r) mod x = 1).
+  { unfold b. rewrite <- Zpower_mod by lia.
+    rewrite <- Z.pow_mul_r by (try apply Z.pow_nonneg; lia).
+    rewrite <- Heq. apply fermat_little; [exact Hx|].
+    apply small_not_div. lia. }
+  destruct (b =? 1) eqn:E1; [reflexivity|].
+  destruct (b =? x - 1) eqn:E2; [reflexivity|].
+  apply Z.eqb_neq in E1. apply Z.eqb_neq in E2. cbn [orb].
+  assert (Hr1 : 1 <= r).
+  { destruct (Z.eq_dec r 0) as [H0 | H0]; [|lia].
+    exfalso. subst r. rewrite Z.pow_0_r, Z.pow_1_r in Hpow.
+    rewrite Z.mod_small in Hpow by exact Hb. contradiction. }
+  apply mr_inner_prime; try assumption.
+  replace (Z.of_nat (Z.to_nat (r - 1)) + 1) with r by lia.
+  exact Hpow.
+Qed.
+
+Lemma mr_loop_prime : forall x r s, prime x -> 5 <= x -> 0 <= r -> 0 < s -> x - 1 = s * 2 ^ r ->
+  forall n tp, fst (mr_loop n x r s tp) = true.
+Proof.
+  intros x r s Hx Hx5 Hr Hs Heq. induction n as [|n IH]; intros tp; cbn [mr_loop].
+  - reflexivity.
+  - unfold randint.
+    set (a := 2 + fst tp (snd tp) mod (x - 2 - 2 + 1)).
+    assert (Ha : 2 <= a <= x - 2).
+    { unfold a. pose proof (Z.mod_pos_bound (fst tp (snd tp)) (x - 2 - 2 + 1) ltac:(lia)). lia. }
+    rewrite (mr_round_prime x r s a Hx Hr Hs Heq Ha).
+    apply IH.
+Qed.
+
+Theorem is_prime_complete : forall n tp x, prime x -> fst (is_prime_n n tp x) = true.
+Proof.
+  intros n tp x Hx. pose proof (prime_ge_2 x Hx) as Hx2.
+  unfold is_prime_n.
+  destruct ((x <=? 2) || (x mod 2 =? 0)) eqn:E.
+  - cbn [fst]. apply Z.eqb_eq.
+    apply orb_true_iff in E. destruct E as [E | E].
+    + apply Z.leb_le in E. lia.
+    + apply Z.eqb_eq in E. apply Zmod_divide in E; [|lia].
+      symmetry. apply prime_div_eq; [exact Hx|lia|exact E].
+  - apply orb_false_iff in E. destruct E as [E1 E2].
+    apply Z.leb_gt in E1. apply Z.eqb_neq in E2.
+    destruct (trial small_primes x) as [b|] eqn:Et.
+    + cbn [fst]. apply (trial_prime small_primes x small_primes_gt1 Hx b Et).
+    + assert (H3 : x mod 3 <> 0).
+      { unfold small_primes in Et. cbn [trial] in Et.
+        destruct (x mod 3 =? 0) eqn:E3; [discriminate|]. apply Z.eqb_neq. exact E3. }
+      assert (Hx5 : 5 <= x).
+      { assert (x <> 3) by (intro; subst x; apply H3; reflexivity).
+        assert (x <> 4) by (intro; subst x; apply E2; reflexivity). lia. }
+      destruct (x - 1) as [|sp|sp] eqn:Ex1; try lia.
+      destruct (twos sp) as [r s] eqn:Etw.
+      destruct (twos_spec sp r s Etw) as [Hr [Hs Heq]].
+      apply mr_loop_prime; try assumption. lia.
+Qed.
+
+Corollary is_prime_false_composite : forall n tp x, fst (is_prime_n n tp x) = false -> ~ prime x.
+Proof.
+  intros n tp x H Hx. rewrite (is_prime_complete n tp x Hx) in H. discriminate.
+Qed.
+
+Corollary is_prime_complete_25 : forall tp x, prime x -> fst (is_prime tp x) = true.
+Proof. intros tp x. apply is_prime_complete. Qed.
+
+
+(* ================================================================== *)
+(* Part 2: the search loop, next_prime, prev_prime                     *)
+(* ================================================================== *)
+
+Theorem search_loop_spec : forall (isp : tape -> Z -> bool * tape) step fuel tp c p tp',
+  search_loop isp step fuel tp c = (Ok p, tp') ->
+  exists k, 0 <= k /\ p = c + step * k /\ (exists t, isp t p = (true, tp')) /\
+            forall i, 0 <= i < k -> exists t, fst (isp t (c + step * i)) = false.
+Proof.
+  intros isp step. induction fuel as [|f IH]; intros tp c p tp' H; cbn [search_loop] in H.
+  - discriminate.
+  - destruct (isp tp c) as [b t1] eqn:E. destruct b.
+    + inversion H; subst. exists 0. split; [lia|]. split; [lia|].
+      split; [exists tp; exact E|]. intros i Hi. lia.
+    + destruct (IH t1 (c + step) p tp' H) as [k [Hk [Hp [Hacc Hrej]]]].
+      exists (k + 1). split; [lia|]. split; [rewrite Hp; ring|].
+      split; [exact Hacc|].
+      intros i Hi. destruct (Z.eq_dec i 0) as [Hi0 | Hi0].
+      * subst i. exists tp. replace (c + step * 0) with c by ring. rewrite E. reflexivity.
+      * destruct (Hrej (i - 1) ltac:(lia)) as [t Ht]. exists t.
+        replace (c + step * i) with (c + step + step * (i - 1)) by ring. exact Ht.
+Qed.
+
+Lemma even_not_prime : forall q, 2 < q -> q mod 2 = 0 -> ~ prime q.
+Proof.
+  intros q Hq Hm Hp. apply Zmod_divide in Hm; [|lia].
+  pose proof (prime_div_eq q 2 Hp ltac:(lia) Hm). lia.
+Qed.
+
+Theorem next_prime_spec : forall (isp : tape -> Z -> bool * tape),
+  (forall tp z, fst (isp tp z) = true <-> prime z) ->
+  forall fuel tp x p tp', next_prime_gen isp fuel tp x = (Ok p, tp') ->
+    prime p /\ x < p /\ forall q, x < q < p -> ~ prime q.
+Proof.
+  intros isp Hor fuel tp x p tp' H. unfold next_prime_gen in H.
+  destruct (x <=? 1) eqn:E.
+  - apply Z.leb_le in E. inversion H; subst.
+    split; [exact prime_2|]. split; [lia|].
+    intros q Hq Hp. pose proof (prime_ge_2 q Hp). lia.
+  - apply Z.leb_gt in E.
+    destruct (search_loop_spec isp 2 fuel tp _ p tp' H) as [k [Hk [Hp [[t Hacc] Hrej]]]].
+    pose proof (Z.mod_pos_bound x 2 ltac:(lia)) as Hm.
+    set (c0 := x + (1 + x mod 2)) in *.
+    assert (Hpp : prime p).
+    { apply (Hor t p). rewrite Hacc. reflexivity. }
+    split; [exact Hpp|]. split; [unfold c0 in Hp; lia|].
+    intros q Hq Hqp.
+    pose proof (Z.mod_pos_bound q 2 ltac:(lia)) as Hqm.
+    destruct (Z.eq_dec (q mod 2) 0) as [Hq0 | Hq0].
+    + apply (even_not_prime q); [lia|exact Hq0|exact Hqp].
+    + set (i := (q - c0) / 2).
+      assert (Hi : q = c0 + 2 * i /\ 0 <= i < k).
+      { unfold i, c0 in *. clear Hrej Hacc H Hpp Hqp. Z.div_mod_to_equations. lia. }
+      destruct Hi as [Hqi Hik].
+      destruct (Hrej i Hik) as [t2 Ht2]. rewrite <- Hqi in Ht2.
+      apply (Hor t2 q) in Hqp. rewrite Hqp in Ht2. discriminate.
+Qed.
+
+Theorem prev_prime_spec : forall (isp : tape -> Z -> bool * tape),
+  (forall tp z, fst (isp tp z) = true <-> prime z) ->
+  forall fuel tp x p tp', prev_prime_gen isp fuel tp x = (Ok p, tp') ->
+    prime p /\ p < x /\ forall q, p < q < x -> ~ prime q.
+Proof.
+  intros isp Hor fuel tp x p tp' H. unfold prev_prime_gen in H.
+  destruct (x <? 3) eqn:E; [discriminate|].
+  apply Z.ltb_ge in E.
+  destruct (x =? 3) eqn:E3.
+  - apply Z.eqb_eq in E3. inversion H; subst.
+    split; [exact prime_2|]. split; [lia|]. intros q Hq. lia.
+  - apply Z.eqb_neq in E3.
+    destruct (search_loop_spec isp (-2) fuel tp _ p tp' H) as [k [Hk [Hp [[t Hacc] Hrej]]]].
+    pose proof (Z.mod_pos_bound x 2 ltac:(lia)) as Hm.
+    set (c0 := x - (1 + x mod 2)) in *.
+    assert (Hpp : prime p).
+    { apply (Hor t p). rewrite Hacc. reflexivity. }
+    pose proof (prime_ge_2 p Hpp) as Hp2.
+    split; [exact Hpp|]. split; [unfold c0 in Hp; lia|].
+    intros q Hq Hqp.
+    pose proof (Z.mod_pos_bound q 2 ltac:(lia)) as Hqm.
+    destruct (Z.eq_dec (q mod 2) 0) as [Hq0 | Hq0].
+    + apply (even_not_prime q); [lia|exact Hq0|exact Hqp].
+    + set (i := (c0 - q) / 2).
+      assert (Hi : q = c0 + -2 * i /\ 0 <= i < k).
+      { unfold i, c0 in *. clear Hrej Hacc H Hpp Hqp. Z.div_mod_to_equations. lia. }
+      destruct Hi as [Hqi Hik].
+      destruct (Hrej i Hik) as [t2 Ht2]. rewrite <- Hqi in Ht2.
+      apply (Hor t2 q) in Hqp. rewrite Hqp in Ht2. discriminate.
+Qed.
+
+Theorem prev_prime_domain : forall isp fuel tp x, x < 3 -> fst (prev_prime_gen isp fuel tp x) = EValue.
+Proof.
+  intros isp fuel tp x Hx. unfold prev_prime_gen.
+  destruct (x <? 3) eqn:E; [reflexivity|]. apply Z.ltb_ge in E. lia.
+Qed.
+
+
+(* ================================================================== *)
+(* Part 3: bounded count of Miller-Rabin liars (by computation)        *)
+(* ================================================================== *)
+
+Definition mr_pass_count (x : Z) : Z :=  (* number of a in [2, x-2] with mr_round x r s a = true, (r, s) = twos (x-1) *)
+  match x - 1 with Zpos sp => let '(r, s) := twos sp in
+     Z.of_nat (length (filter (fun a => mr_round x r s a) (zrange 2 (Z.to_nat (x - 3))))) | _ => 0 end.
+
+Lemma zrange_In : forall lo n v, In v (zrange lo n) <-> lo <= v < lo + Z.of_nat n.
+Proof.
+  intros lo n v. unfold zrange. rewrite in_map_iff. split.
+  - intros [i [Hi Hin]]. apply in_seq in Hin. lia.
+  - intros Hv. exists (Z.to_nat (v - lo)). split; [lia|]. apply in_seq. lia.
+Qed.
+
+(* lazily evaluated disjunction (vm_compute is call-by-value on [orb]) *)
+Definition liar_check (x : Z) : bool :=
+  if negb (Z.odd x) then true else
+  match trial small_primes x with
+  | Some _ => true
+  | None => if is_prime_small x then true else 4 * mr_pass_count x <=? x - 3
+  end.
+
+Lemma liar_check_all : forallb liar_check (zrange 54 970) = true.
+Proof. vm_compute. reflexivity. Qed.
+
+Theorem mr_liars_bounded : forall x, 53 < x < 1024 -> Z.odd x = true -> trial small_primes x = None ->
+  ~ prime x -> 4 * mr_pass_count x <= x - 3.
+Proof.
+  intros x Hx Hodd Htr Hnp.
+  pose proof liar_check_all as Hall.
+  rewrite forallb_forall in Hall.
+  assert (Hin : In x (zrange 54 970)) by (apply zrange_In; lia).
+  specialize (Hall x Hin). unfold liar_check in Hall.
+  rewrite Hodd, Htr in Hall. cbn [negb] in Hall.
+  destruct (is_prime_small x) eqn:Ep.
+  - exfalso. apply Hnp. apply is_prime_small_correct. exact Ep.
+  - apply Z.leb_le. exact Hall.
+Qed.
+
+
+(* ---- FINDING: the 1024 bound makes [mr_liars_bounded] vacuous: every odd x < 1024 that survives
+   trial division by the primes <= 53 is prime (the smallest surviving composite is 59^2 = 3481),
+   so the hypotheses [trial small_primes x = None] and [~ prime x] are contradictory there. ---- *)
+Definition surv_prime_check (x : Z) : bool :=
+  if negb (Z.odd x) then true else
+  match trial small_primes x with Some _ => true | None => is_prime_small x end.
+
+Lemma surv_prime_check_all : forallb surv_prime_check (zrange 54 970) = true.
+Proof. vm_compute. reflexivity. Qed.
+
+Theorem trial_survivor_prime_1024 : forall x, 53 < x < 1024 -> Z.odd x = true ->
+  trial small_primes x = None -> prime x.
+Proof.
+  intros x Hx Hodd Htr.
+  pose proof surv_prime_check_all as Hall.
+  rewrite forallb_forall in Hall.
+  assert (Hin : In x (zrange 54 970)) by (apply zrange_In; lia).
+  specialize (Hall x Hin). unfold surv_prime_check in Hall.
+  rewrite Hodd, Htr in Hall. cbn [negb] in Hall.
+  apply is_prime_small_correct. exact Hall.
+Qed.
+
+(* ---- non-vacuous extension: bound 2^12; the surviving composites are
+   3481 = 59^2, 3599 = 59*61, 3721 = 61^2, 3953 = 59*67, 4087 = 61*67
+   with pass counts 56, 0, 58, 0, 16.  (~16 s of vm_compute; independent of the rest.) ---- *)
+Lemma liar_check_all_4096 : forallb liar_check (zrange 54 4042) = true.
+Proof. vm_compute. reflexivity. Qed.
+
+Theorem mr_liars_bounded_4096 : forall x, 53 < x < 4096 -> Z.odd x = true -> trial small_primes x = None ->
+  ~ prime x -> 4 * mr_pass_count x <= x - 3.
+Proof.
+  intros x Hx Hodd Htr Hnp.
+  pose proof liar_check_all_4096 as Hall.
+  rewrite forallb_forall in Hall.
+  assert (Hin : In x (zrange 54 4042)) by (apply zrange_In; lia).
+  specialize (Hall x Hin). unfold liar_check in Hall.
+  rewrite Hodd, Htr in Hall. cbn [negb] in Hall.
+  destruct (is_prime_small x) eqn:Ep.
+  - exfalso. apply Hnp. apply is_prime_small_correct. exact Ep.
+  - apply Z.leb_le. exact Hall.
+Qed.
+
+(* the extension is not vacuous *)
+Lemma mr_liars_4096_witness :
+  trial small_primes 3481 = None /\ Z.odd 3481 = true /\ 3481 = 59 * 59 /\ mr_pass_count 3481 = 56.
+Proof. vm_compute. repeat split; reflexivity. Qed.
+
+
+End PD.
+
+Definition fermat_little := PD.fermat_little.
+Definition sqrt1_mod_prime := PD.sqrt1_mod_prime.
+Definition is_prime_complete := PD.is_prime_complete.
+Definition is_prime_false_composite := PD.is_prime_false_composite.
+Definition search_loop_spec := PD.search_loop_spec.
+Definition next_prime_spec := PD.next_prime_spec.
+Definition prev_prime_spec := PD.prev_prime_spec.
+Definition prev_prime_domain := PD.prev_prime_domain.
+Definition mr_pass_count := PD.mr_pass_count.
+Definition mr_liars_bounded_4096 := PD.mr_liars_bounded_4096.
+Definition trial_survivor_prime_1024 := PD.trial_survivor_prime_1024.
+Definition is_prime_complete_25 := PD.is_prime_complete_25.
+Definition even_not_prime := PD.even_not_prime.
+Definition zrange_In := PD.zrange_In.
+Definition powZ_spec := PD.powZ_spec.
+Definition twos_spec := PD.twos_spec.
+
+Module PE.
+Local Open Scope Z_scope.
+
+(** ---- ratrec ---- *)
+
+Lemma mod_half_pos : forall f r, 0 < r < f -> 0 <= f mod r /\ 2 * (f mod r) < f.
+Proof.
+  intros f r H.
+  pose proof (Z.mod_pos_bound f r ltac:(lia)) as Hb.
+  pose proof (Z.div_mod f r ltac:(lia)) as Hd.
+  assert (1 <= f / r) as Hq by (apply Z.div_le_lower_bound; lia).
+  split; [lia | nia].
+Qed.
+
+Lemma euclid_fuel_ok : forall f,
+  exists k, Z.abs f < 2 ^ Z.of_nat k /\ (2 * k + 1 <= euclid_fuel f)%nat.
+Proof.
+  intros f. exists (S (Z.to_nat (Z.log2_up (Z.abs f)))). split.
+  - pose proof (Z.log2_up_nonneg (Z.abs f)) as Hn.
+    rewrite Nat2Z.inj_succ, Z2Nat.id by assumption.
+    rewrite Z.pow_succ_r by assumption.
+    destruct (Z.eq_dec (Z.abs f) 0) as [E | NE].
+    + rewrite E. cbn. lia.
+    + pose proof (Z.log2_up_spec (Z.abs f)) as Hs.
+      destruct (Z.eq_dec (Z.abs f) 1) as [E1 | NE1].
+      * rewrite E1. cbn. lia.
+      * specialize (Hs ltac:(lia)). lia.
+  - unfold euclid_fuel. lia.
+Qed.
+
+Lemma ratrec_loop_term : forall k fuel N n0 n d0 d,
+  0 <= N -> 0 <= n < 2 ^ Z.of_nat k -> (2 * k + 1 <= fuel)%nat ->
+  ratrec_loop fuel N n0 n d0 d <> None.
+Proof.
+  induction k as [|k IH]; intros fuel N n0 n d0 d HN Hn Hfuel.
+  - assert (n = 0) as -> by (simpl in Hn; lia).
+    destruct fuel; cbn [ratrec_loop];
+      (destruct (N <? 0) eqn:E; [apply Z.ltb_lt in E; lia|]); cbn; discriminate.
+  - destruct fuel as [|fuel]; [lia|].
+    cbn [ratrec_loop]. destruct (N <? n) eqn:E1; cbn [negb]; [|discriminate].
+    apply Z.ltb_lt in E1.
+    destruct fuel as [|fuel]; [lia|].
+    cbn [ratrec_loop]. destruct (N <? n0 mod n) eqn:E2; cbn [negb]; [|discriminate].
+    apply Z.ltb_lt in E2. cbv zeta.
+    pose proof (Z.mod_pos_bound n0 n ltac:(lia)) as Hb.
+    apply IH; [exact HN| |lia].
+    pose proof (mod_half_pos n (n0 mod n) ltac:(lia)) as Hh.
+    rewrite Nat2Z.inj_succ, Z.pow_succ_r in Hn by lia. lia.
+Qed.
+
+Lemma ratrec_loop_inv : forall x y fuel N n0 n d0 d n' d',
+  0 <= N -> 0 <= n ->
+  (y | n0 - x * d0) -> (y | n - x * d) ->
+  ratrec_loop fuel N n0 n d0 d = Some (n', d') ->
+  (y | n' - x * d') /\ 0 <= n' <= N.
+Proof.
+  intros x y. induction fuel as [|fuel IH]; intros N n0 n d0 d n' d' HN Hn H0 H1 Hl.
+  - cbn [ratrec_loop] in Hl. destruct (N <? n) eqn:E; cbn [negb] in Hl; [discriminate|].
+    apply Z.ltb_ge in E. inversion Hl; subst. split; [exact H1|lia].
+  - cbn [ratrec_loop] in Hl. destruct (N <? n) eqn:E; cbn [negb] in Hl.
+    + apply Z.ltb_lt in E. cbv zeta in Hl.
+      pose proof (Z.mod_pos_bound n0 n ltac:(lia)) as Hb.
+      apply IH in Hl; [exact Hl|exact HN|lia|exact H1|].
+      rewrite Z.mod_eq by lia.
+      replace (n0 - n * (n0 / n) - x * (d0 - n0 / n * d))
+        with ((n0 - x * d0) - (n0 / n) * (n - x * d)) by ring.
+      apply Z.divide_sub_r; [exact H0|]. apply Z.divide_mul_r. exact H1.
+    + apply Z.ltb_ge in E. inversion Hl; subst. split; [exact H1|lia].
+Qed.
+
+Theorem ratrec_core_domain : forall x y N D,
+  (N < 0 \/ D <= 0 \/ y <= 2 * N * D) -> ratrec_core x y N D = EValue.
+Proof.
+  intros x y N D H. unfold ratrec_core.
+  destruct (N <? 0) eqn:E1; [reflexivity|].
+  destruct (D <=? 0) eqn:E2; [reflexivity|].
+  destruct (y <=? 2 * N * D) eqn:E3; [reflexivity|].
+  apply Z.ltb_ge in E1. apply Z.leb_gt in E2. apply Z.leb_gt in E3. lia.
+Qed.
+
+Lemma ratrec_core_cond : forall y N D,
+  (N <? 0) || (D <=? 0) || (y <=? 2 * N * D) = false ->
+  0 <= N /\ 0 < D /\ 2 * N * D < y.
+Proof.
+  intros y N D H.
+  apply orb_false_iff in H. destruct H as [H H3].
+  apply orb_false_iff in H. destruct H as [H1 H2].
+  apply Z.ltb_ge in H1. apply Z.leb_gt in H2. apply Z.leb_gt in H3. lia.
+Qed.
+
+Theorem ratrec_core_no_fuel : forall x y N D, ratrec_core x y N D <> EFuel.
+Proof.
+  intros x y N D. unfold ratrec_core.
+  destruct ((N <? 0) || (D <=? 0) || (y <=? 2 * N * D)) eqn:C; [discriminate|].
+  apply ratrec_core_cond in C. destruct C as (HN & HD & Hy).
+  assert (Hy0 : 0 < y) by nia.
+  destruct (ratrec_loop (euclid_fuel y) N x y 1 0) as [[n d]|] eqn:L.
+  - destruct (d <? 0);
+      match goal with |- context [if ?b then _ else _] => destruct b end; discriminate.
+  - exfalso. destruct (euclid_fuel_ok y) as (k & Hk1 & Hk2).
+    revert L. apply ratrec_loop_term with (k := k); [exact HN|lia|exact Hk2].
+Qed.
+
+Theorem ratrec_core_sound : forall x y N D n d, ratrec_core x y N D = Ok (n, d) ->
+  0 <= N /\ 0 < D /\ 2 * N * D < y /\ (n - x * d) mod y = 0 /\ - N <= n <= N /\
+  0 < d <= D /\ Z.gcd n d = 1.
+Proof.
+  intros x y N D n d H. unfold ratrec_core in H.
+  destruct ((N <? 0) || (D <=? 0) || (y <=? 2 * N * D)) eqn:C; [discriminate|].
+  apply ratrec_core_cond in C. destruct C as (HN & HD & Hy).
+  assert (Hy0 : 0 < y) by nia.
+  destruct (ratrec_loop (euclid_fuel y) N x y 1 0) as [[n1 d1]|] eqn:L; [|discriminate].
+  apply (ratrec_loop_inv x y) in L; [|exact HN|lia| |].
+  2:{ exists 0. ring. }
+  2:{ exists 1. ring. }
+  destruct L as [Hdiv Hn1].
+  assert (Hgen : exists n2 d2, (if d1 <? 0 then (- n1, - d1) else (n1, d1)) = (n2, d2) /\
+                  (y | n2 - x * d2) /\ - N <= n2 <= N /\ 0 <= d2).
+  { destruct (d1 <? 0) eqn:E.
+    - apply Z.ltb_lt in E. exists (- n1), (- d1). split; [reflexivity|].
+      split; [|lia].
+      replace (- n1 - x * - d1) with (- (n1 - x * d1)) by ring.
+      apply Z.divide_opp_r. exact Hdiv.
+    - apply Z.ltb_ge in E. exists n1, d1. split; [reflexivity|]. split; [exact Hdiv|lia]. }
+  destruct Hgen as (n2 & d2 & Heq & Hdiv2 & Hn2 & Hd2).
+  rewrite Heq in H.
+  destruct (d2 <=? D) eqn:E1; cbn [andb] in H; [|discriminate].
+  destruct (Z.gcd n2 d2 =? 1) eqn:E2; [|discriminate].
+  inversion H; subst n2 d2. clear H.
+  apply Z.leb_le in E1. apply Z.eqb_eq in E2.
+  split; [exact HN|]. split; [exact HD|]. split; [exact Hy|].
+  split; [apply Z.mod_divide; [lia|exact Hdiv2]|].
+  split; [exact Hn2|]. split; [|exact E2].
+  split; [|exact E1].
+  destruct (Z.eq_dec d 0) as [Hd0|Hd0]; [|lia].
+  exfalso. subst d. rewrite Z.gcd_0_r in E2.
+  replace (n - x * 0) with n in Hdiv2 by ring.
+  assert (Hy1 : y <= 1).
+  { destruct (Z.abs_eq_or_opp n) as [Ha|Ha].
+    - rewrite Ha in E2. subst n. apply Z.divide_pos_le in Hdiv2; lia.
+    - assert (Hn1' : n = -1) by lia. subst n.
+      apply Z.divide_opp_r in Hdiv2. cbn in Hdiv2.
+      apply Z.divide_pos_le in Hdiv2; lia. }
+  assert (N = 0) by nia. lia.
+Qed.
+
+(** ---- factor_prime_power ---- *)
+
+Lemma search_loop_accept : forall isp step fuel tp c p tp',
+  search_loop isp step fuel tp c = (Ok p, tp') -> exists t, fst (isp t p) = true.
+Proof.
+  intros isp step. induction fuel as [|fuel IH]; intros tp c p tp' H.
+  - cbn [search_loop] in H. discriminate.
+  - cbn [search_loop] in H. destruct (isp tp c) as [b tp1] eqn:E.
+    destruct b.
+    + inversion H; subst. exists tp. rewrite E. reflexivity.
+    + apply IH in H. exact H.
+Qed.
+
+Lemma next_prime_gen_prime : forall isp npf,
+  (forall tp z, fst (isp tp z) = true -> prime z) ->
+  forall tp q p tp', next_prime_gen isp npf tp q = (Ok p, tp') -> prime p.
+Proof.
+  intros isp npf Hisp tp q p tp' H. unfold next_prime_gen in H.
+  destruct (q <=? 1).
+  - inversion H; subst. exact prime_2.
+  - apply search_loop_accept in H. destruct H as [t Ht]. exact (Hisp t p Ht).
+Qed.
+
+Lemma prime_gt1 : forall p, prime p -> 1 < p.
+Proof. intros p [H _]. exact H. Qed.
+
+Lemma divout_spec : forall fuel x p d r e, 1 < p -> 0 < x -> 0 <= d ->
+  divout fuel x p d = Ok (r, e) ->
+  r = p /\ d <= e /\ x * p ^ d = p ^ e /\ (1 < x -> d < e).
+Proof.
+  induction fuel as [|fuel IH]; intros x p d r e Hp Hx Hd H.
+  - cbn [divout] in H. destruct (1 <? x) eqn:E; cbn [negb] in H; [discriminate|].
+    apply Z.ltb_ge in E. inversion H; subst.
+    assert (x = 1) by lia. subst x. repeat split; lia.
+  - cbn [divout] in H. destruct (1 <? x) eqn:E; cbn [negb] in H.
+    + apply Z.ltb_lt in E.
+      destruct (x mod p =? 0) eqn:Em; [|discriminate].
+      apply Z.eqb_eq in Em.
+      pose proof (Z.div_mod x p ltac:(lia)) as Hdm. rewrite Em in Hdm.
+      assert (Hq : 0 < x / p) by nia.
+      apply IH in H; [|exact Hp|exact Hq|lia].
+      destruct H as (Hr & Hle & Heq & _).
+      split; [exact Hr|]. split; [lia|]. split; [|lia].
+      rewrite <- Heq. rewrite Z.pow_add_r, Z.pow_1_r by lia.
+      rewrite Hdm at 1. ring.
+    + apply Z.ltb_ge in E. inversion H; subst.
+      assert (x = 1) by lia. subst x. repeat split; lia.
+Qed.
+
+Lemma fpp_small_sound : forall isp npf,
+  (forall tp z, fst (isp tp z) = true -> prime z) ->
+  forall fuel tp x p p' d tp', 1 < x -> prime p ->
+    fpp_small isp npf fuel tp x p = (Some (Ok (p', d)), tp') ->
+    prime p' /\ 0 < d /\ x = p' ^ d.
+Proof.
+  intros isp npf Hisp. induction fuel as [|fuel IH]; intros tp x p p' d tp' Hx Hp H.
+  - cbn [fpp_small] in H. discriminate.
+  - cbn [fpp_small] in H. destruct (p <? Z.shiftl 1 10); [|discriminate].
+    destruct (x mod p =? 0).
+    + inversion H as [[Hd Htp]]. clear H.
+      apply divout_spec in Hd; [|apply prime_gt1; exact Hp|lia|lia].
+      destruct Hd as (Hr & _ & Heq & Hlt). subst p'.
+      split; [exact Hp|]. split; [lia|].
+      rewrite Z.pow_0_r in Heq. lia.
+    + destruct (next_prime_gen isp npf tp p) as [[q| | | |] tp1] eqn:En; try discriminate.
+      apply next_prime_gen_prime in En; [|exact Hisp].
+      eapply IH; eauto.
+Qed.
+
+Lemma is_square_true : forall p, 0 <= p -> is_square p = Ok true -> p = Z.sqrt p ^ 2.
+Proof.
+  intros p Hp H. unfold is_square in H. cbv zeta in H.
+  destruct (negb _); [discriminate|].
+  unfold isqrt in H. destruct (p <? 0) eqn:E; [discriminate|].
+  injection H as He. apply Z.eqb_eq in He. exact He.
+Qed.
+
+Lemma fpp_sq_sound : forall fuel p d p' d', 1 < p -> 0 < d ->
+  fpp_sq fuel p d = Ok (p', d') -> 1 < p' /\ 0 < d' /\ p' ^ d' = p ^ d.
+Proof.
+  induction fuel as [|fuel IH]; intros p d p' d' Hp Hd H.
+  - cbn [fpp_sq] in H. discriminate.
+  - cbn [fpp_sq] in H. destruct (is_square p) as [[|]| | | |] eqn:Es; try discriminate.
+    + apply is_square_true in Es; [|lia].
+      pose proof (Z.sqrt_nonneg p) as Hs0.
+      assert (Hs : 1 < Z.sqrt p).
+      { destruct (Z_lt_le_dec 1 (Z.sqrt p)) as [Hl|Hl]; [exact Hl|].
+        exfalso. rewrite Z.pow_2_r in Es. nia. }
+      apply IH in H; [|exact Hs|lia].
+      destruct H as (H1 & H2 & H3). split; [exact H1|]. split; [exact H2|].
+      rewrite H3. rewrite Z.pow_mul_r by lia. rewrite <- Es. reflexivity.
+    + inversion H; subst. repeat split; assumption.
+Qed.
+
+Lemma iroot_true : forall p e w, 0 < p -> 0 < e -> iroot p e = Ok (w, true) ->
+  0 < w /\ p = w ^ e.
+Proof.
+  intros p e w Hp He H. unfold iroot in H. cbv zeta in H.
+  destruct (p =? 0) eqn:Ep; [apply Z.eqb_eq in Ep; lia|].
+  destruct (e =? 0) eqn:Ee; [discriminate|].
+  destruct (_ <? 0) eqn:Ek; [discriminate|].
+  destruct (e <? 0) eqn:Ee'; [apply Z.ltb_lt in Ee'; lia|].
+  assert (Hgen : forall i y, 0 < y -> 0 < iroot_loop p e i y).
+  { induction i as [|i IHi]; intros y Hy; cbn [iroot_loop]; [exact Hy|].
+    cbv zeta. apply IHi.
+    destruct (_ <=? p); [|exact Hy].
+    rewrite Z.shiftl_1_l.
+    assert (Hpw : 0 < 2 ^ Z.of_nat i) by (apply Z.pow_pos_nonneg; lia).
+    destruct (Z_lt_le_dec 0 (Z.lor y (2 ^ Z.of_nat i))) as [Hc|Hc]; [exact Hc|].
+    exfalso.
+    assert (Hnn : 0 <= Z.lor y (2 ^ Z.of_nat i)) by (apply Z.lor_nonneg; lia).
+    assert (Hzero : Z.lor y (2 ^ Z.of_nat i) = 0) by lia.
+    apply Z.lor_eq_0_iff in Hzero. lia. }
+  apply Z.ltb_ge in Ek.
+  specialize (Hgen (Z.to_nat ((bit_length p - 1) / e))
+                   (Z.shiftl 1 ((bit_length p - 1) / e))).
+  rewrite Z.shiftl_1_l in Hgen, H.
+  assert (Hpk : 0 < 2 ^ ((bit_length p - 1) / e)) by (apply Z.pow_pos_nonneg; lia).
+  specialize (Hgen Hpk).
+  remember (iroot_loop p e (Z.to_nat ((bit_length p - 1) / e)) (2 ^ ((bit_length p - 1) / e)))
+    as r eqn:Hr. clear Hr.
+  injection H as Hw Hb. subst r. apply Z.eqb_eq in Hb.
+  split; [exact Hgen|exact Hb].
+Qed.
+
+Lemma fpp_roots_sound : forall isp npf,
+  (forall tp z, fst (isp tp z) = true -> prime z) ->
+  forall fuel tp p d e p' d' tp', 1 < p -> 0 < d -> 0 < e ->
+    fpp_roots isp npf fuel tp p d e = (Ok (p', d'), tp') ->
+    1 < p' /\ 0 < d' /\ p' ^ d' = p ^ d.
+Proof.
+  intros isp npf Hisp. induction fuel as [|fuel IH]; intros tp p d e p' d' tp' Hp Hd He H.
+  - cbn [fpp_roots] in H. discriminate.
+  - cbn [fpp_roots] in H. destruct (10 * e <=? bit_length p).
+    + destruct (iroot p e) as [[w [|]]| | | |] eqn:Er; try discriminate.
+      * apply iroot_true in Er; [|lia|exact He]. destruct Er as [Hw Hpw].
+        assert (Hw1 : 1 < w).
+        { destruct (Z.eq_dec w 1) as [E|E]; [|lia].
+          subst w. rewrite Z.pow_1_l in Hpw by lia. lia. }
+        apply IH in H; [|exact Hw1|nia|exact He].
+        destruct H as (H1 & H2 & H3). split; [exact H1|]. split; [exact H2|].
+        rewrite H3, Hpw. rewrite Z.pow_mul_r by lia. reflexivity.
+      * destruct (next_prime_gen isp npf tp e) as [[e'| | | |] tp1] eqn:En; try discriminate.
+        apply next_prime_gen_prime in En; [|exact Hisp].
+        apply prime_gt1 in En.
+        apply IH in H; [exact H|exact Hp|exact Hd|lia].
+    + inversion H; subst. repeat split; assumption.
+Qed.
+
+Theorem factor_prime_power_sound : forall (isp : tape -> Z -> bool * tape) npf,
+  (forall tp z, fst (isp tp z) = true -> prime z) ->
+  forall tp x p d tp', factor_prime_power_gen isp npf tp x = (Ok (p, d), tp') ->
+    prime p /\ 0 < d /\ x = p ^ d.
+Proof.
+  intros isp npf Hisp tp x p d tp' H. unfold factor_prime_power_gen in H.
+  destruct (x <=? 1) eqn:Ex; [discriminate|]. apply Z.leb_gt in Ex.
+  destruct (fpp_small isp npf 1100 tp x 2) as [[r|] tp1] eqn:Es.
+  - inversion H; subst r tp1. clear H.
+    apply (fpp_small_sound isp npf Hisp) in Es; [exact Es|exact Ex|exact prime_2].
+  - clear Es.
+    destruct (fpp_sq (log_fuel x) x 1) as [[p1 d1]| | | |] eqn:Eq; try discriminate.
+    apply fpp_sq_sound in Eq; [|exact Ex|lia]. destruct Eq as (Hp1 & Hd1 & Heq1).
+    destruct (fpp_roots isp npf (log_fuel x) tp1 p1 d1 3) as [[[p2 d2]| | | |] tp2] eqn:Er;
+      try discriminate.
+    apply (fpp_roots_sound isp npf Hisp) in Er; [|exact Hp1|exact Hd1|lia].
+    destruct Er as (Hp2 & Hd2 & Heq2).
+    destruct (isp tp2 p2) as [b tp3] eqn:Ei. destruct b; [|discriminate].
+    inversion H; subst p d tp3. clear H.
+    split; [apply (Hisp tp2); rewrite Ei; reflexivity|]. split; [exact Hd2|].
+    rewrite Heq2, Heq1. rewrite Z.pow_1_r. reflexivity.
+Qed.
+
+Theorem factor_prime_power_domain : forall isp npf tp x, x <= 1 ->
+  fst (factor_prime_power_gen isp npf tp x) = EValue.
+Proof.
+  intros isp npf tp x Hx. unfold factor_prime_power_gen.
+  destruct (x <=? 1) eqn:E; [reflexivity|]. apply Z.leb_gt in E. lia.
+Qed.
+
+
+End PE.
+
+Definition ratrec_core_domain := PE.ratrec_core_domain.
+Definition ratrec_core_no_fuel := PE.ratrec_core_no_fuel.
+Definition ratrec_core_sound := PE.ratrec_core_sound.
+Definition factor_prime_power_sound := PE.factor_prime_power_sound.
+Definition factor_prime_power_domain := PE.factor_prime_power_domain.
+Definition search_loop_accept := PE.search_loop_accept.
+Definition next_prime_gen_prime := PE.next_prime_gen_prime.
+
+Module PH.
+Local Open Scope Z_scope.
+
+(** the GMP convention quoted in the docstring of the gcdext stub, as a boolean *)
+Definition gmp_normal (a b g s t : Z) : bool :=
+  if (a =? 0) && (b =? 0) then (g =? 0) && (s =? 0) && (t =? 0)
+  else if (Z.abs a =? g) && (Z.abs b =? g) then (s =? 0) && (t =? Z.sgn b)
+  else (if (b =? 0) || (Z.abs b =? 2 * g) then s =? Z.sgn a else 2 * g * Z.abs s <? Z.abs b)
+    && (if (a =? 0) || (Z.abs a =? 2 * g) then t =? Z.sgn b else 2 * g * Z.abs t <? Z.abs a).
+
+Definition gcdext_normal_at (a b : Z) : bool :=
+  match gcdext a b with Ok (g, s, t) => gmp_normal a b g s t | _ => false end.
+
+Lemma gcdext_normal_all :
+  forallb (fun a => forallb (gcdext_normal_at a) (zrange (-64) 129)) (zrange (-64) 129) = true.
+Proof. vm_compute. reflexivity. Qed.
+
+Theorem gcdext_gmp_normal_bounded : forall a b, -64 <= a <= 64 -> -64 <= b <= 64 ->
+  gcdext_normal_at a b = true.
+Proof.
+  intros a b Ha Hb. pose proof gcdext_normal_all as H.
+  rewrite forallb_forall in H.
+  assert (Ia : In a (zrange (-64) 129)) by (apply zrange_In; lia).
+  specialize (H a Ia). rewrite forallb_forall in H. apply H. apply zrange_In; lia.
+Qed.
+
+End PH.
+
+Definition gmp_normal := PH.gmp_normal.
+Definition gcdext_normal_at := PH.gcdext_normal_at.
+Definition gcdext_gmp_normal_bounded := PH.gcdext_gmp_normal_bounded.
